@@ -1,1 +1,2055 @@
 use super::*;
+use crate::verif_common::*;
+
+// ===========================================================================
+// C09: ChunkSink -> channel -> Session::pull pipeline (sequential composition)
+// The std sync_channel is replaced by its FIFO contract (send appends, recv pops,
+// recv on empty+closed fails). The producer runs to completion first, then the
+// consumer pulls: by Kahn determinism the delivered sequence does not depend on
+// channel depth or relative speed (trusted argument, not a solver result).
+// ===========================================================================
+const FIFO_CAP: usize = 10;
+static mut FIFO: [[u64; 4]; FIFO_CAP] = [[0; 4]; FIFO_CAP];
+static mut FIFO_HEAD: usize = 0;
+static mut FIFO_TAIL: usize = 0;
+
+fn send_stub<T>(_tx: &SyncSender<T>, t: T) -> Result<(), std::sync::mpsc::SendError<T>> {
+    unsafe {
+        assert!(std::mem::size_of::<T>() <= 32 && std::mem::align_of::<T>() <= 8);
+        kani::assume(FIFO_TAIL < FIFO_CAP);
+        std::ptr::write(FIFO[FIFO_TAIL].as_mut_ptr() as *mut T, t);
+        FIFO_TAIL += 1;
+        Ok(())
+    }
+}
+
+fn recv_stub<T>(_rx: &Receiver<T>) -> Result<T, std::sync::mpsc::RecvError> {
+    unsafe {
+        if FIFO_HEAD == FIFO_TAIL {
+            // producer finished and dropped its sender: empty means closed
+            return Err(std::sync::mpsc::RecvError);
+        }
+        let v = std::ptr::read(FIFO[FIFO_HEAD].as_ptr() as *const T);
+        FIFO_HEAD += 1;
+        Ok(v)
+    }
+}
+
+/// N payload bytes written in two calls (W1, N-W1) through a ChunkSink of CB-byte
+/// chunks; then pulled to the end.
+fn pipeline<const N: usize, const CB: usize, const W1: usize>() {
+    let payload: [u8; N] = kani::any();
+    let (tx, rx) = sync_channel::<Msg>(1);
+    let mut sink = ChunkSink::new(tx.clone(), CB);
+    sink.write_all(&payload[..W1]).unwrap();
+    sink.write_all(&payload[W1..]).unwrap();
+    sink.flush().unwrap(); // must not emit a short chunk
+    sink.flush_remaining().unwrap();
+    tx.send(Msg::End).unwrap();
+
+    let mut s = Session { rx, lookahead: None, done: false };
+    let mut got = [0u8; 8];
+    let mut n = 0usize;
+    let mut pulls = 0usize;
+    let mut lasts = 0usize;
+    let mut ended = false;
+    // at most N/CB + 2 pulls are needed; bound the loop by 8
+    while pulls < 8 && !ended {
+        let (chunk, last) = match s.pull() {
+            Ok(x) => x,
+            Err(_) => panic!("a clean production surfaced as an error"),
+        };
+        pulls += 1;
+        assert!(chunk.len() <= CB, "chunk larger than the configured chunk size");
+        if !last {
+            assert!(chunk.len() == CB, "a non-final chunk is not full-size");
+        }
+        let mut i = 0;
+        while i < chunk.len() {
+            got[n] = chunk[i];
+            n += 1;
+            i += 1;
+        }
+        // the `last` flag rides in a 1-byte raw-binary query
+        let req = Message::builder().id(5).build();
+        let resp = chunk_response(&req, chunk, last);
+        assert!(resp.query.len() == 1 && resp.query[0] == last as u8 && resp.header.id == 5);
+        std::mem::forget(resp);
+        if last {
+            lasts += 1;
+            ended = true;
+        }
+    }
+    assert!(ended && lasts == 1, "stream did not end with exactly one final chunk");
+    assert!(n == N, "pulled byte count differs from the produced byte count");
+    let mut k = 0;
+    while k < N {
+        assert!(got[k] == payload[k], "pulled bytes differ from the produced bytes");
+        k += 1;
+    }
+    if N == 0 {
+        assert!(pulls == 1, "an empty payload must yield a single empty final chunk");
+    }
+    // expected number of pulls: ceil(N/CB), or 1 for the empty payload
+    let want_pulls = if N == 0 { 1 } else { (N + CB - 1) / CB };
+    assert!(pulls == want_pulls);
+    std::mem::forget(s);
+    std::mem::forget(sink);
+    std::mem::forget(tx);
+}
+
+macro_rules! c09_pipeline {
+    ($name:ident, $n:expr, $cb:expr, $w1:expr) => {
+        #[kani::proof]
+        #[kani::stub(std::sync::mpsc::SyncSender::send, send_stub)]
+        #[kani::stub(std::sync::mpsc::Receiver::recv, recv_stub)]
+        #[kani::unwind(10)]
+        fn $name() {
+            pipeline::<$n, $cb, $w1>();
+        }
+    };
+}
+
+//@ name: c09_pipeline_n0_cb2_w0
+//@ prop: C09
+//@ tier: quick
+//@ clause: the concatenation of pulled chunks is exactly the produced byte stream; exactly one pulled chunk, the final one, carries the end marker; non-final chunks are full-size; an empty payload yields a single empty final chunk; the last flag is the 1-byte response query
+//@ funcs: ChunkSink::new; ChunkSink::write; ChunkSink::send_chunk; ChunkSink::flush; ChunkSink::flush_remaining; Session::pull; Session::recv; value_stream::chunk_response
+//@ symbolic: all payload bytes
+//@ bounds: payload 0 bytes, chunk size 2, written as 0+0 bytes (per-instance constants: boundary residue 0 mod 2 = 0); uncompressed; channel replaced by its FIFO contract (producer runs to completion first); unwind 10
+//@ oracle: byte-for-byte comparison with the payload; exactly-one-last; pull count = ceil(n/chunk) (1 for empty)
+//@ stubs: mpsc::SyncSender::send / Receiver::recv -> in-memory FIFO (std channel blocking/futex paths not modelled)
+c09_pipeline!(c09_pipeline_n0_cb2_w0, 0, 2, 0);
+
+//@ name: c09_pipeline_n3_cb2_w1
+//@ prop: C09
+//@ tier: quick
+//@ clause: the concatenation of pulled chunks is exactly the produced byte stream; exactly one pulled chunk, the final one, carries the end marker; non-final chunks are full-size; an empty payload yields a single empty final chunk; the last flag is the 1-byte response query
+//@ funcs: ChunkSink::new; ChunkSink::write; ChunkSink::send_chunk; ChunkSink::flush; ChunkSink::flush_remaining; Session::pull; Session::recv; value_stream::chunk_response
+//@ symbolic: all payload bytes
+//@ bounds: payload 3 bytes, chunk size 2, written as 1+2 bytes (per-instance constants: boundary residue 3 mod 2 = 1); uncompressed; channel replaced by its FIFO contract (producer runs to completion first); unwind 10
+//@ oracle: byte-for-byte comparison with the payload; exactly-one-last; pull count = ceil(n/chunk) (1 for empty)
+//@ stubs: mpsc::SyncSender::send / Receiver::recv -> in-memory FIFO (std channel blocking/futex paths not modelled)
+c09_pipeline!(c09_pipeline_n3_cb2_w1, 3, 2, 1);
+
+//@ name: c09_pipeline_n4_cb2_w3
+//@ prop: C09
+//@ tier: quick
+//@ clause: the concatenation of pulled chunks is exactly the produced byte stream; exactly one pulled chunk, the final one, carries the end marker; non-final chunks are full-size; an empty payload yields a single empty final chunk; the last flag is the 1-byte response query
+//@ funcs: ChunkSink::new; ChunkSink::write; ChunkSink::send_chunk; ChunkSink::flush; ChunkSink::flush_remaining; Session::pull; Session::recv; value_stream::chunk_response
+//@ symbolic: all payload bytes
+//@ bounds: payload 4 bytes, chunk size 2, written as 3+1 bytes (per-instance constants: boundary residue 4 mod 2 = 0); uncompressed; channel replaced by its FIFO contract (producer runs to completion first); unwind 10
+//@ oracle: byte-for-byte comparison with the payload; exactly-one-last; pull count = ceil(n/chunk) (1 for empty)
+//@ stubs: mpsc::SyncSender::send / Receiver::recv -> in-memory FIFO (std channel blocking/futex paths not modelled)
+c09_pipeline!(c09_pipeline_n4_cb2_w3, 4, 2, 3);
+
+//@ name: c09_pipeline_n5_cb3_w2
+//@ prop: C09
+//@ tier: quick
+//@ clause: the concatenation of pulled chunks is exactly the produced byte stream; exactly one pulled chunk, the final one, carries the end marker; non-final chunks are full-size; an empty payload yields a single empty final chunk; the last flag is the 1-byte response query
+//@ funcs: ChunkSink::new; ChunkSink::write; ChunkSink::send_chunk; ChunkSink::flush; ChunkSink::flush_remaining; Session::pull; Session::recv; value_stream::chunk_response
+//@ symbolic: all payload bytes
+//@ bounds: payload 5 bytes, chunk size 3, written as 2+3 bytes (per-instance constants: boundary residue 5 mod 3 = 2); uncompressed; channel replaced by its FIFO contract (producer runs to completion first); unwind 10
+//@ oracle: byte-for-byte comparison with the payload; exactly-one-last; pull count = ceil(n/chunk) (1 for empty)
+//@ stubs: mpsc::SyncSender::send / Receiver::recv -> in-memory FIFO (std channel blocking/futex paths not modelled)
+c09_pipeline!(c09_pipeline_n5_cb3_w2, 5, 3, 2);
+
+//@ name: c09_pipeline_n0_cb1_w0
+//@ prop: C09
+//@ tier: thorough
+//@ clause: the concatenation of pulled chunks is exactly the produced byte stream; exactly one pulled chunk, the final one, carries the end marker; non-final chunks are full-size; an empty payload yields a single empty final chunk; the last flag is the 1-byte response query
+//@ funcs: ChunkSink::new; ChunkSink::write; ChunkSink::send_chunk; ChunkSink::flush; ChunkSink::flush_remaining; Session::pull; Session::recv; value_stream::chunk_response
+//@ symbolic: all payload bytes
+//@ bounds: payload 0 bytes, chunk size 1, written as 0+0 bytes (per-instance constants: boundary residue 0 mod 1 = 0); uncompressed; channel replaced by its FIFO contract (producer runs to completion first); unwind 10
+//@ oracle: byte-for-byte comparison with the payload; exactly-one-last; pull count = ceil(n/chunk) (1 for empty)
+//@ stubs: mpsc::SyncSender::send / Receiver::recv -> in-memory FIFO (std channel blocking/futex paths not modelled)
+c09_pipeline!(c09_pipeline_n0_cb1_w0, 0, 1, 0);
+
+//@ name: c09_pipeline_n1_cb1_w0
+//@ prop: C09
+//@ tier: thorough
+//@ clause: the concatenation of pulled chunks is exactly the produced byte stream; exactly one pulled chunk, the final one, carries the end marker; non-final chunks are full-size; an empty payload yields a single empty final chunk; the last flag is the 1-byte response query
+//@ funcs: ChunkSink::new; ChunkSink::write; ChunkSink::send_chunk; ChunkSink::flush; ChunkSink::flush_remaining; Session::pull; Session::recv; value_stream::chunk_response
+//@ symbolic: all payload bytes
+//@ bounds: payload 1 bytes, chunk size 1, written as 0+1 bytes (per-instance constants: boundary residue 1 mod 1 = 0); uncompressed; channel replaced by its FIFO contract (producer runs to completion first); unwind 10
+//@ oracle: byte-for-byte comparison with the payload; exactly-one-last; pull count = ceil(n/chunk) (1 for empty)
+//@ stubs: mpsc::SyncSender::send / Receiver::recv -> in-memory FIFO (std channel blocking/futex paths not modelled)
+c09_pipeline!(c09_pipeline_n1_cb1_w0, 1, 1, 0);
+
+//@ name: c09_pipeline_n1_cb1_w1
+//@ prop: C09
+//@ tier: thorough
+//@ clause: the concatenation of pulled chunks is exactly the produced byte stream; exactly one pulled chunk, the final one, carries the end marker; non-final chunks are full-size; an empty payload yields a single empty final chunk; the last flag is the 1-byte response query
+//@ funcs: ChunkSink::new; ChunkSink::write; ChunkSink::send_chunk; ChunkSink::flush; ChunkSink::flush_remaining; Session::pull; Session::recv; value_stream::chunk_response
+//@ symbolic: all payload bytes
+//@ bounds: payload 1 bytes, chunk size 1, written as 1+0 bytes (per-instance constants: boundary residue 1 mod 1 = 0); uncompressed; channel replaced by its FIFO contract (producer runs to completion first); unwind 10
+//@ oracle: byte-for-byte comparison with the payload; exactly-one-last; pull count = ceil(n/chunk) (1 for empty)
+//@ stubs: mpsc::SyncSender::send / Receiver::recv -> in-memory FIFO (std channel blocking/futex paths not modelled)
+c09_pipeline!(c09_pipeline_n1_cb1_w1, 1, 1, 1);
+
+//@ name: c09_pipeline_n2_cb1_w0
+//@ prop: C09
+//@ tier: thorough
+//@ clause: the concatenation of pulled chunks is exactly the produced byte stream; exactly one pulled chunk, the final one, carries the end marker; non-final chunks are full-size; an empty payload yields a single empty final chunk; the last flag is the 1-byte response query
+//@ funcs: ChunkSink::new; ChunkSink::write; ChunkSink::send_chunk; ChunkSink::flush; ChunkSink::flush_remaining; Session::pull; Session::recv; value_stream::chunk_response
+//@ symbolic: all payload bytes
+//@ bounds: payload 2 bytes, chunk size 1, written as 0+2 bytes (per-instance constants: boundary residue 2 mod 1 = 0); uncompressed; channel replaced by its FIFO contract (producer runs to completion first); unwind 10
+//@ oracle: byte-for-byte comparison with the payload; exactly-one-last; pull count = ceil(n/chunk) (1 for empty)
+//@ stubs: mpsc::SyncSender::send / Receiver::recv -> in-memory FIFO (std channel blocking/futex paths not modelled)
+c09_pipeline!(c09_pipeline_n2_cb1_w0, 2, 1, 0);
+
+//@ name: c09_pipeline_n2_cb1_w1
+//@ prop: C09
+//@ tier: thorough
+//@ clause: the concatenation of pulled chunks is exactly the produced byte stream; exactly one pulled chunk, the final one, carries the end marker; non-final chunks are full-size; an empty payload yields a single empty final chunk; the last flag is the 1-byte response query
+//@ funcs: ChunkSink::new; ChunkSink::write; ChunkSink::send_chunk; ChunkSink::flush; ChunkSink::flush_remaining; Session::pull; Session::recv; value_stream::chunk_response
+//@ symbolic: all payload bytes
+//@ bounds: payload 2 bytes, chunk size 1, written as 1+1 bytes (per-instance constants: boundary residue 2 mod 1 = 0); uncompressed; channel replaced by its FIFO contract (producer runs to completion first); unwind 10
+//@ oracle: byte-for-byte comparison with the payload; exactly-one-last; pull count = ceil(n/chunk) (1 for empty)
+//@ stubs: mpsc::SyncSender::send / Receiver::recv -> in-memory FIFO (std channel blocking/futex paths not modelled)
+c09_pipeline!(c09_pipeline_n2_cb1_w1, 2, 1, 1);
+
+//@ name: c09_pipeline_n2_cb1_w2
+//@ prop: C09
+//@ tier: thorough
+//@ clause: the concatenation of pulled chunks is exactly the produced byte stream; exactly one pulled chunk, the final one, carries the end marker; non-final chunks are full-size; an empty payload yields a single empty final chunk; the last flag is the 1-byte response query
+//@ funcs: ChunkSink::new; ChunkSink::write; ChunkSink::send_chunk; ChunkSink::flush; ChunkSink::flush_remaining; Session::pull; Session::recv; value_stream::chunk_response
+//@ symbolic: all payload bytes
+//@ bounds: payload 2 bytes, chunk size 1, written as 2+0 bytes (per-instance constants: boundary residue 2 mod 1 = 0); uncompressed; channel replaced by its FIFO contract (producer runs to completion first); unwind 10
+//@ oracle: byte-for-byte comparison with the payload; exactly-one-last; pull count = ceil(n/chunk) (1 for empty)
+//@ stubs: mpsc::SyncSender::send / Receiver::recv -> in-memory FIFO (std channel blocking/futex paths not modelled)
+c09_pipeline!(c09_pipeline_n2_cb1_w2, 2, 1, 2);
+
+//@ name: c09_pipeline_n3_cb1_w0
+//@ prop: C09
+//@ tier: thorough
+//@ clause: the concatenation of pulled chunks is exactly the produced byte stream; exactly one pulled chunk, the final one, carries the end marker; non-final chunks are full-size; an empty payload yields a single empty final chunk; the last flag is the 1-byte response query
+//@ funcs: ChunkSink::new; ChunkSink::write; ChunkSink::send_chunk; ChunkSink::flush; ChunkSink::flush_remaining; Session::pull; Session::recv; value_stream::chunk_response
+//@ symbolic: all payload bytes
+//@ bounds: payload 3 bytes, chunk size 1, written as 0+3 bytes (per-instance constants: boundary residue 3 mod 1 = 0); uncompressed; channel replaced by its FIFO contract (producer runs to completion first); unwind 10
+//@ oracle: byte-for-byte comparison with the payload; exactly-one-last; pull count = ceil(n/chunk) (1 for empty)
+//@ stubs: mpsc::SyncSender::send / Receiver::recv -> in-memory FIFO (std channel blocking/futex paths not modelled)
+c09_pipeline!(c09_pipeline_n3_cb1_w0, 3, 1, 0);
+
+//@ name: c09_pipeline_n3_cb1_w1
+//@ prop: C09
+//@ tier: thorough
+//@ clause: the concatenation of pulled chunks is exactly the produced byte stream; exactly one pulled chunk, the final one, carries the end marker; non-final chunks are full-size; an empty payload yields a single empty final chunk; the last flag is the 1-byte response query
+//@ funcs: ChunkSink::new; ChunkSink::write; ChunkSink::send_chunk; ChunkSink::flush; ChunkSink::flush_remaining; Session::pull; Session::recv; value_stream::chunk_response
+//@ symbolic: all payload bytes
+//@ bounds: payload 3 bytes, chunk size 1, written as 1+2 bytes (per-instance constants: boundary residue 3 mod 1 = 0); uncompressed; channel replaced by its FIFO contract (producer runs to completion first); unwind 10
+//@ oracle: byte-for-byte comparison with the payload; exactly-one-last; pull count = ceil(n/chunk) (1 for empty)
+//@ stubs: mpsc::SyncSender::send / Receiver::recv -> in-memory FIFO (std channel blocking/futex paths not modelled)
+c09_pipeline!(c09_pipeline_n3_cb1_w1, 3, 1, 1);
+
+//@ name: c09_pipeline_n3_cb1_w2
+//@ prop: C09
+//@ tier: thorough
+//@ clause: the concatenation of pulled chunks is exactly the produced byte stream; exactly one pulled chunk, the final one, carries the end marker; non-final chunks are full-size; an empty payload yields a single empty final chunk; the last flag is the 1-byte response query
+//@ funcs: ChunkSink::new; ChunkSink::write; ChunkSink::send_chunk; ChunkSink::flush; ChunkSink::flush_remaining; Session::pull; Session::recv; value_stream::chunk_response
+//@ symbolic: all payload bytes
+//@ bounds: payload 3 bytes, chunk size 1, written as 2+1 bytes (per-instance constants: boundary residue 3 mod 1 = 0); uncompressed; channel replaced by its FIFO contract (producer runs to completion first); unwind 10
+//@ oracle: byte-for-byte comparison with the payload; exactly-one-last; pull count = ceil(n/chunk) (1 for empty)
+//@ stubs: mpsc::SyncSender::send / Receiver::recv -> in-memory FIFO (std channel blocking/futex paths not modelled)
+c09_pipeline!(c09_pipeline_n3_cb1_w2, 3, 1, 2);
+
+//@ name: c09_pipeline_n3_cb1_w3
+//@ prop: C09
+//@ tier: thorough
+//@ clause: the concatenation of pulled chunks is exactly the produced byte stream; exactly one pulled chunk, the final one, carries the end marker; non-final chunks are full-size; an empty payload yields a single empty final chunk; the last flag is the 1-byte response query
+//@ funcs: ChunkSink::new; ChunkSink::write; ChunkSink::send_chunk; ChunkSink::flush; ChunkSink::flush_remaining; Session::pull; Session::recv; value_stream::chunk_response
+//@ symbolic: all payload bytes
+//@ bounds: payload 3 bytes, chunk size 1, written as 3+0 bytes (per-instance constants: boundary residue 3 mod 1 = 0); uncompressed; channel replaced by its FIFO contract (producer runs to completion first); unwind 10
+//@ oracle: byte-for-byte comparison with the payload; exactly-one-last; pull count = ceil(n/chunk) (1 for empty)
+//@ stubs: mpsc::SyncSender::send / Receiver::recv -> in-memory FIFO (std channel blocking/futex paths not modelled)
+c09_pipeline!(c09_pipeline_n3_cb1_w3, 3, 1, 3);
+
+//@ name: c09_pipeline_n4_cb1_w0
+//@ prop: C09
+//@ tier: thorough
+//@ clause: the concatenation of pulled chunks is exactly the produced byte stream; exactly one pulled chunk, the final one, carries the end marker; non-final chunks are full-size; an empty payload yields a single empty final chunk; the last flag is the 1-byte response query
+//@ funcs: ChunkSink::new; ChunkSink::write; ChunkSink::send_chunk; ChunkSink::flush; ChunkSink::flush_remaining; Session::pull; Session::recv; value_stream::chunk_response
+//@ symbolic: all payload bytes
+//@ bounds: payload 4 bytes, chunk size 1, written as 0+4 bytes (per-instance constants: boundary residue 4 mod 1 = 0); uncompressed; channel replaced by its FIFO contract (producer runs to completion first); unwind 10
+//@ oracle: byte-for-byte comparison with the payload; exactly-one-last; pull count = ceil(n/chunk) (1 for empty)
+//@ stubs: mpsc::SyncSender::send / Receiver::recv -> in-memory FIFO (std channel blocking/futex paths not modelled)
+c09_pipeline!(c09_pipeline_n4_cb1_w0, 4, 1, 0);
+
+//@ name: c09_pipeline_n4_cb1_w1
+//@ prop: C09
+//@ tier: thorough
+//@ clause: the concatenation of pulled chunks is exactly the produced byte stream; exactly one pulled chunk, the final one, carries the end marker; non-final chunks are full-size; an empty payload yields a single empty final chunk; the last flag is the 1-byte response query
+//@ funcs: ChunkSink::new; ChunkSink::write; ChunkSink::send_chunk; ChunkSink::flush; ChunkSink::flush_remaining; Session::pull; Session::recv; value_stream::chunk_response
+//@ symbolic: all payload bytes
+//@ bounds: payload 4 bytes, chunk size 1, written as 1+3 bytes (per-instance constants: boundary residue 4 mod 1 = 0); uncompressed; channel replaced by its FIFO contract (producer runs to completion first); unwind 10
+//@ oracle: byte-for-byte comparison with the payload; exactly-one-last; pull count = ceil(n/chunk) (1 for empty)
+//@ stubs: mpsc::SyncSender::send / Receiver::recv -> in-memory FIFO (std channel blocking/futex paths not modelled)
+c09_pipeline!(c09_pipeline_n4_cb1_w1, 4, 1, 1);
+
+//@ name: c09_pipeline_n4_cb1_w2
+//@ prop: C09
+//@ tier: thorough
+//@ clause: the concatenation of pulled chunks is exactly the produced byte stream; exactly one pulled chunk, the final one, carries the end marker; non-final chunks are full-size; an empty payload yields a single empty final chunk; the last flag is the 1-byte response query
+//@ funcs: ChunkSink::new; ChunkSink::write; ChunkSink::send_chunk; ChunkSink::flush; ChunkSink::flush_remaining; Session::pull; Session::recv; value_stream::chunk_response
+//@ symbolic: all payload bytes
+//@ bounds: payload 4 bytes, chunk size 1, written as 2+2 bytes (per-instance constants: boundary residue 4 mod 1 = 0); uncompressed; channel replaced by its FIFO contract (producer runs to completion first); unwind 10
+//@ oracle: byte-for-byte comparison with the payload; exactly-one-last; pull count = ceil(n/chunk) (1 for empty)
+//@ stubs: mpsc::SyncSender::send / Receiver::recv -> in-memory FIFO (std channel blocking/futex paths not modelled)
+c09_pipeline!(c09_pipeline_n4_cb1_w2, 4, 1, 2);
+
+//@ name: c09_pipeline_n4_cb1_w4
+//@ prop: C09
+//@ tier: thorough
+//@ clause: the concatenation of pulled chunks is exactly the produced byte stream; exactly one pulled chunk, the final one, carries the end marker; non-final chunks are full-size; an empty payload yields a single empty final chunk; the last flag is the 1-byte response query
+//@ funcs: ChunkSink::new; ChunkSink::write; ChunkSink::send_chunk; ChunkSink::flush; ChunkSink::flush_remaining; Session::pull; Session::recv; value_stream::chunk_response
+//@ symbolic: all payload bytes
+//@ bounds: payload 4 bytes, chunk size 1, written as 4+0 bytes (per-instance constants: boundary residue 4 mod 1 = 0); uncompressed; channel replaced by its FIFO contract (producer runs to completion first); unwind 10
+//@ oracle: byte-for-byte comparison with the payload; exactly-one-last; pull count = ceil(n/chunk) (1 for empty)
+//@ stubs: mpsc::SyncSender::send / Receiver::recv -> in-memory FIFO (std channel blocking/futex paths not modelled)
+c09_pipeline!(c09_pipeline_n4_cb1_w4, 4, 1, 4);
+
+//@ name: c09_pipeline_n5_cb1_w0
+//@ prop: C09
+//@ tier: thorough
+//@ clause: the concatenation of pulled chunks is exactly the produced byte stream; exactly one pulled chunk, the final one, carries the end marker; non-final chunks are full-size; an empty payload yields a single empty final chunk; the last flag is the 1-byte response query
+//@ funcs: ChunkSink::new; ChunkSink::write; ChunkSink::send_chunk; ChunkSink::flush; ChunkSink::flush_remaining; Session::pull; Session::recv; value_stream::chunk_response
+//@ symbolic: all payload bytes
+//@ bounds: payload 5 bytes, chunk size 1, written as 0+5 bytes (per-instance constants: boundary residue 5 mod 1 = 0); uncompressed; channel replaced by its FIFO contract (producer runs to completion first); unwind 10
+//@ oracle: byte-for-byte comparison with the payload; exactly-one-last; pull count = ceil(n/chunk) (1 for empty)
+//@ stubs: mpsc::SyncSender::send / Receiver::recv -> in-memory FIFO (std channel blocking/futex paths not modelled)
+c09_pipeline!(c09_pipeline_n5_cb1_w0, 5, 1, 0);
+
+//@ name: c09_pipeline_n5_cb1_w1
+//@ prop: C09
+//@ tier: thorough
+//@ clause: the concatenation of pulled chunks is exactly the produced byte stream; exactly one pulled chunk, the final one, carries the end marker; non-final chunks are full-size; an empty payload yields a single empty final chunk; the last flag is the 1-byte response query
+//@ funcs: ChunkSink::new; ChunkSink::write; ChunkSink::send_chunk; ChunkSink::flush; ChunkSink::flush_remaining; Session::pull; Session::recv; value_stream::chunk_response
+//@ symbolic: all payload bytes
+//@ bounds: payload 5 bytes, chunk size 1, written as 1+4 bytes (per-instance constants: boundary residue 5 mod 1 = 0); uncompressed; channel replaced by its FIFO contract (producer runs to completion first); unwind 10
+//@ oracle: byte-for-byte comparison with the payload; exactly-one-last; pull count = ceil(n/chunk) (1 for empty)
+//@ stubs: mpsc::SyncSender::send / Receiver::recv -> in-memory FIFO (std channel blocking/futex paths not modelled)
+c09_pipeline!(c09_pipeline_n5_cb1_w1, 5, 1, 1);
+
+//@ name: c09_pipeline_n5_cb1_w2
+//@ prop: C09
+//@ tier: thorough
+//@ clause: the concatenation of pulled chunks is exactly the produced byte stream; exactly one pulled chunk, the final one, carries the end marker; non-final chunks are full-size; an empty payload yields a single empty final chunk; the last flag is the 1-byte response query
+//@ funcs: ChunkSink::new; ChunkSink::write; ChunkSink::send_chunk; ChunkSink::flush; ChunkSink::flush_remaining; Session::pull; Session::recv; value_stream::chunk_response
+//@ symbolic: all payload bytes
+//@ bounds: payload 5 bytes, chunk size 1, written as 2+3 bytes (per-instance constants: boundary residue 5 mod 1 = 0); uncompressed; channel replaced by its FIFO contract (producer runs to completion first); unwind 10
+//@ oracle: byte-for-byte comparison with the payload; exactly-one-last; pull count = ceil(n/chunk) (1 for empty)
+//@ stubs: mpsc::SyncSender::send / Receiver::recv -> in-memory FIFO (std channel blocking/futex paths not modelled)
+c09_pipeline!(c09_pipeline_n5_cb1_w2, 5, 1, 2);
+
+//@ name: c09_pipeline_n5_cb1_w5
+//@ prop: C09
+//@ tier: thorough
+//@ clause: the concatenation of pulled chunks is exactly the produced byte stream; exactly one pulled chunk, the final one, carries the end marker; non-final chunks are full-size; an empty payload yields a single empty final chunk; the last flag is the 1-byte response query
+//@ funcs: ChunkSink::new; ChunkSink::write; ChunkSink::send_chunk; ChunkSink::flush; ChunkSink::flush_remaining; Session::pull; Session::recv; value_stream::chunk_response
+//@ symbolic: all payload bytes
+//@ bounds: payload 5 bytes, chunk size 1, written as 5+0 bytes (per-instance constants: boundary residue 5 mod 1 = 0); uncompressed; channel replaced by its FIFO contract (producer runs to completion first); unwind 10
+//@ oracle: byte-for-byte comparison with the payload; exactly-one-last; pull count = ceil(n/chunk) (1 for empty)
+//@ stubs: mpsc::SyncSender::send / Receiver::recv -> in-memory FIFO (std channel blocking/futex paths not modelled)
+c09_pipeline!(c09_pipeline_n5_cb1_w5, 5, 1, 5);
+
+//@ name: c09_pipeline_n1_cb2_w0
+//@ prop: C09
+//@ tier: thorough
+//@ clause: the concatenation of pulled chunks is exactly the produced byte stream; exactly one pulled chunk, the final one, carries the end marker; non-final chunks are full-size; an empty payload yields a single empty final chunk; the last flag is the 1-byte response query
+//@ funcs: ChunkSink::new; ChunkSink::write; ChunkSink::send_chunk; ChunkSink::flush; ChunkSink::flush_remaining; Session::pull; Session::recv; value_stream::chunk_response
+//@ symbolic: all payload bytes
+//@ bounds: payload 1 bytes, chunk size 2, written as 0+1 bytes (per-instance constants: boundary residue 1 mod 2 = 1); uncompressed; channel replaced by its FIFO contract (producer runs to completion first); unwind 10
+//@ oracle: byte-for-byte comparison with the payload; exactly-one-last; pull count = ceil(n/chunk) (1 for empty)
+//@ stubs: mpsc::SyncSender::send / Receiver::recv -> in-memory FIFO (std channel blocking/futex paths not modelled)
+c09_pipeline!(c09_pipeline_n1_cb2_w0, 1, 2, 0);
+
+//@ name: c09_pipeline_n1_cb2_w1
+//@ prop: C09
+//@ tier: thorough
+//@ clause: the concatenation of pulled chunks is exactly the produced byte stream; exactly one pulled chunk, the final one, carries the end marker; non-final chunks are full-size; an empty payload yields a single empty final chunk; the last flag is the 1-byte response query
+//@ funcs: ChunkSink::new; ChunkSink::write; ChunkSink::send_chunk; ChunkSink::flush; ChunkSink::flush_remaining; Session::pull; Session::recv; value_stream::chunk_response
+//@ symbolic: all payload bytes
+//@ bounds: payload 1 bytes, chunk size 2, written as 1+0 bytes (per-instance constants: boundary residue 1 mod 2 = 1); uncompressed; channel replaced by its FIFO contract (producer runs to completion first); unwind 10
+//@ oracle: byte-for-byte comparison with the payload; exactly-one-last; pull count = ceil(n/chunk) (1 for empty)
+//@ stubs: mpsc::SyncSender::send / Receiver::recv -> in-memory FIFO (std channel blocking/futex paths not modelled)
+c09_pipeline!(c09_pipeline_n1_cb2_w1, 1, 2, 1);
+
+//@ name: c09_pipeline_n2_cb2_w0
+//@ prop: C09
+//@ tier: thorough
+//@ clause: the concatenation of pulled chunks is exactly the produced byte stream; exactly one pulled chunk, the final one, carries the end marker; non-final chunks are full-size; an empty payload yields a single empty final chunk; the last flag is the 1-byte response query
+//@ funcs: ChunkSink::new; ChunkSink::write; ChunkSink::send_chunk; ChunkSink::flush; ChunkSink::flush_remaining; Session::pull; Session::recv; value_stream::chunk_response
+//@ symbolic: all payload bytes
+//@ bounds: payload 2 bytes, chunk size 2, written as 0+2 bytes (per-instance constants: boundary residue 2 mod 2 = 0); uncompressed; channel replaced by its FIFO contract (producer runs to completion first); unwind 10
+//@ oracle: byte-for-byte comparison with the payload; exactly-one-last; pull count = ceil(n/chunk) (1 for empty)
+//@ stubs: mpsc::SyncSender::send / Receiver::recv -> in-memory FIFO (std channel blocking/futex paths not modelled)
+c09_pipeline!(c09_pipeline_n2_cb2_w0, 2, 2, 0);
+
+//@ name: c09_pipeline_n2_cb2_w1
+//@ prop: C09
+//@ tier: thorough
+//@ clause: the concatenation of pulled chunks is exactly the produced byte stream; exactly one pulled chunk, the final one, carries the end marker; non-final chunks are full-size; an empty payload yields a single empty final chunk; the last flag is the 1-byte response query
+//@ funcs: ChunkSink::new; ChunkSink::write; ChunkSink::send_chunk; ChunkSink::flush; ChunkSink::flush_remaining; Session::pull; Session::recv; value_stream::chunk_response
+//@ symbolic: all payload bytes
+//@ bounds: payload 2 bytes, chunk size 2, written as 1+1 bytes (per-instance constants: boundary residue 2 mod 2 = 0); uncompressed; channel replaced by its FIFO contract (producer runs to completion first); unwind 10
+//@ oracle: byte-for-byte comparison with the payload; exactly-one-last; pull count = ceil(n/chunk) (1 for empty)
+//@ stubs: mpsc::SyncSender::send / Receiver::recv -> in-memory FIFO (std channel blocking/futex paths not modelled)
+c09_pipeline!(c09_pipeline_n2_cb2_w1, 2, 2, 1);
+
+//@ name: c09_pipeline_n2_cb2_w2
+//@ prop: C09
+//@ tier: thorough
+//@ clause: the concatenation of pulled chunks is exactly the produced byte stream; exactly one pulled chunk, the final one, carries the end marker; non-final chunks are full-size; an empty payload yields a single empty final chunk; the last flag is the 1-byte response query
+//@ funcs: ChunkSink::new; ChunkSink::write; ChunkSink::send_chunk; ChunkSink::flush; ChunkSink::flush_remaining; Session::pull; Session::recv; value_stream::chunk_response
+//@ symbolic: all payload bytes
+//@ bounds: payload 2 bytes, chunk size 2, written as 2+0 bytes (per-instance constants: boundary residue 2 mod 2 = 0); uncompressed; channel replaced by its FIFO contract (producer runs to completion first); unwind 10
+//@ oracle: byte-for-byte comparison with the payload; exactly-one-last; pull count = ceil(n/chunk) (1 for empty)
+//@ stubs: mpsc::SyncSender::send / Receiver::recv -> in-memory FIFO (std channel blocking/futex paths not modelled)
+c09_pipeline!(c09_pipeline_n2_cb2_w2, 2, 2, 2);
+
+//@ name: c09_pipeline_n3_cb2_w0
+//@ prop: C09
+//@ tier: thorough
+//@ clause: the concatenation of pulled chunks is exactly the produced byte stream; exactly one pulled chunk, the final one, carries the end marker; non-final chunks are full-size; an empty payload yields a single empty final chunk; the last flag is the 1-byte response query
+//@ funcs: ChunkSink::new; ChunkSink::write; ChunkSink::send_chunk; ChunkSink::flush; ChunkSink::flush_remaining; Session::pull; Session::recv; value_stream::chunk_response
+//@ symbolic: all payload bytes
+//@ bounds: payload 3 bytes, chunk size 2, written as 0+3 bytes (per-instance constants: boundary residue 3 mod 2 = 1); uncompressed; channel replaced by its FIFO contract (producer runs to completion first); unwind 10
+//@ oracle: byte-for-byte comparison with the payload; exactly-one-last; pull count = ceil(n/chunk) (1 for empty)
+//@ stubs: mpsc::SyncSender::send / Receiver::recv -> in-memory FIFO (std channel blocking/futex paths not modelled)
+c09_pipeline!(c09_pipeline_n3_cb2_w0, 3, 2, 0);
+
+//@ name: c09_pipeline_n3_cb2_w2
+//@ prop: C09
+//@ tier: thorough
+//@ clause: the concatenation of pulled chunks is exactly the produced byte stream; exactly one pulled chunk, the final one, carries the end marker; non-final chunks are full-size; an empty payload yields a single empty final chunk; the last flag is the 1-byte response query
+//@ funcs: ChunkSink::new; ChunkSink::write; ChunkSink::send_chunk; ChunkSink::flush; ChunkSink::flush_remaining; Session::pull; Session::recv; value_stream::chunk_response
+//@ symbolic: all payload bytes
+//@ bounds: payload 3 bytes, chunk size 2, written as 2+1 bytes (per-instance constants: boundary residue 3 mod 2 = 1); uncompressed; channel replaced by its FIFO contract (producer runs to completion first); unwind 10
+//@ oracle: byte-for-byte comparison with the payload; exactly-one-last; pull count = ceil(n/chunk) (1 for empty)
+//@ stubs: mpsc::SyncSender::send / Receiver::recv -> in-memory FIFO (std channel blocking/futex paths not modelled)
+c09_pipeline!(c09_pipeline_n3_cb2_w2, 3, 2, 2);
+
+//@ name: c09_pipeline_n3_cb2_w3
+//@ prop: C09
+//@ tier: thorough
+//@ clause: the concatenation of pulled chunks is exactly the produced byte stream; exactly one pulled chunk, the final one, carries the end marker; non-final chunks are full-size; an empty payload yields a single empty final chunk; the last flag is the 1-byte response query
+//@ funcs: ChunkSink::new; ChunkSink::write; ChunkSink::send_chunk; ChunkSink::flush; ChunkSink::flush_remaining; Session::pull; Session::recv; value_stream::chunk_response
+//@ symbolic: all payload bytes
+//@ bounds: payload 3 bytes, chunk size 2, written as 3+0 bytes (per-instance constants: boundary residue 3 mod 2 = 1); uncompressed; channel replaced by its FIFO contract (producer runs to completion first); unwind 10
+//@ oracle: byte-for-byte comparison with the payload; exactly-one-last; pull count = ceil(n/chunk) (1 for empty)
+//@ stubs: mpsc::SyncSender::send / Receiver::recv -> in-memory FIFO (std channel blocking/futex paths not modelled)
+c09_pipeline!(c09_pipeline_n3_cb2_w3, 3, 2, 3);
+
+//@ name: c09_pipeline_n4_cb2_w0
+//@ prop: C09
+//@ tier: thorough
+//@ clause: the concatenation of pulled chunks is exactly the produced byte stream; exactly one pulled chunk, the final one, carries the end marker; non-final chunks are full-size; an empty payload yields a single empty final chunk; the last flag is the 1-byte response query
+//@ funcs: ChunkSink::new; ChunkSink::write; ChunkSink::send_chunk; ChunkSink::flush; ChunkSink::flush_remaining; Session::pull; Session::recv; value_stream::chunk_response
+//@ symbolic: all payload bytes
+//@ bounds: payload 4 bytes, chunk size 2, written as 0+4 bytes (per-instance constants: boundary residue 4 mod 2 = 0); uncompressed; channel replaced by its FIFO contract (producer runs to completion first); unwind 10
+//@ oracle: byte-for-byte comparison with the payload; exactly-one-last; pull count = ceil(n/chunk) (1 for empty)
+//@ stubs: mpsc::SyncSender::send / Receiver::recv -> in-memory FIFO (std channel blocking/futex paths not modelled)
+c09_pipeline!(c09_pipeline_n4_cb2_w0, 4, 2, 0);
+
+//@ name: c09_pipeline_n4_cb2_w1
+//@ prop: C09
+//@ tier: thorough
+//@ clause: the concatenation of pulled chunks is exactly the produced byte stream; exactly one pulled chunk, the final one, carries the end marker; non-final chunks are full-size; an empty payload yields a single empty final chunk; the last flag is the 1-byte response query
+//@ funcs: ChunkSink::new; ChunkSink::write; ChunkSink::send_chunk; ChunkSink::flush; ChunkSink::flush_remaining; Session::pull; Session::recv; value_stream::chunk_response
+//@ symbolic: all payload bytes
+//@ bounds: payload 4 bytes, chunk size 2, written as 1+3 bytes (per-instance constants: boundary residue 4 mod 2 = 0); uncompressed; channel replaced by its FIFO contract (producer runs to completion first); unwind 10
+//@ oracle: byte-for-byte comparison with the payload; exactly-one-last; pull count = ceil(n/chunk) (1 for empty)
+//@ stubs: mpsc::SyncSender::send / Receiver::recv -> in-memory FIFO (std channel blocking/futex paths not modelled)
+c09_pipeline!(c09_pipeline_n4_cb2_w1, 4, 2, 1);
+
+//@ name: c09_pipeline_n4_cb2_w2
+//@ prop: C09
+//@ tier: thorough
+//@ clause: the concatenation of pulled chunks is exactly the produced byte stream; exactly one pulled chunk, the final one, carries the end marker; non-final chunks are full-size; an empty payload yields a single empty final chunk; the last flag is the 1-byte response query
+//@ funcs: ChunkSink::new; ChunkSink::write; ChunkSink::send_chunk; ChunkSink::flush; ChunkSink::flush_remaining; Session::pull; Session::recv; value_stream::chunk_response
+//@ symbolic: all payload bytes
+//@ bounds: payload 4 bytes, chunk size 2, written as 2+2 bytes (per-instance constants: boundary residue 4 mod 2 = 0); uncompressed; channel replaced by its FIFO contract (producer runs to completion first); unwind 10
+//@ oracle: byte-for-byte comparison with the payload; exactly-one-last; pull count = ceil(n/chunk) (1 for empty)
+//@ stubs: mpsc::SyncSender::send / Receiver::recv -> in-memory FIFO (std channel blocking/futex paths not modelled)
+c09_pipeline!(c09_pipeline_n4_cb2_w2, 4, 2, 2);
+
+//@ name: c09_pipeline_n4_cb2_w4
+//@ prop: C09
+//@ tier: thorough
+//@ clause: the concatenation of pulled chunks is exactly the produced byte stream; exactly one pulled chunk, the final one, carries the end marker; non-final chunks are full-size; an empty payload yields a single empty final chunk; the last flag is the 1-byte response query
+//@ funcs: ChunkSink::new; ChunkSink::write; ChunkSink::send_chunk; ChunkSink::flush; ChunkSink::flush_remaining; Session::pull; Session::recv; value_stream::chunk_response
+//@ symbolic: all payload bytes
+//@ bounds: payload 4 bytes, chunk size 2, written as 4+0 bytes (per-instance constants: boundary residue 4 mod 2 = 0); uncompressed; channel replaced by its FIFO contract (producer runs to completion first); unwind 10
+//@ oracle: byte-for-byte comparison with the payload; exactly-one-last; pull count = ceil(n/chunk) (1 for empty)
+//@ stubs: mpsc::SyncSender::send / Receiver::recv -> in-memory FIFO (std channel blocking/futex paths not modelled)
+c09_pipeline!(c09_pipeline_n4_cb2_w4, 4, 2, 4);
+
+//@ name: c09_pipeline_n5_cb2_w0
+//@ prop: C09
+//@ tier: thorough
+//@ clause: the concatenation of pulled chunks is exactly the produced byte stream; exactly one pulled chunk, the final one, carries the end marker; non-final chunks are full-size; an empty payload yields a single empty final chunk; the last flag is the 1-byte response query
+//@ funcs: ChunkSink::new; ChunkSink::write; ChunkSink::send_chunk; ChunkSink::flush; ChunkSink::flush_remaining; Session::pull; Session::recv; value_stream::chunk_response
+//@ symbolic: all payload bytes
+//@ bounds: payload 5 bytes, chunk size 2, written as 0+5 bytes (per-instance constants: boundary residue 5 mod 2 = 1); uncompressed; channel replaced by its FIFO contract (producer runs to completion first); unwind 10
+//@ oracle: byte-for-byte comparison with the payload; exactly-one-last; pull count = ceil(n/chunk) (1 for empty)
+//@ stubs: mpsc::SyncSender::send / Receiver::recv -> in-memory FIFO (std channel blocking/futex paths not modelled)
+c09_pipeline!(c09_pipeline_n5_cb2_w0, 5, 2, 0);
+
+//@ name: c09_pipeline_n5_cb2_w1
+//@ prop: C09
+//@ tier: thorough
+//@ clause: the concatenation of pulled chunks is exactly the produced byte stream; exactly one pulled chunk, the final one, carries the end marker; non-final chunks are full-size; an empty payload yields a single empty final chunk; the last flag is the 1-byte response query
+//@ funcs: ChunkSink::new; ChunkSink::write; ChunkSink::send_chunk; ChunkSink::flush; ChunkSink::flush_remaining; Session::pull; Session::recv; value_stream::chunk_response
+//@ symbolic: all payload bytes
+//@ bounds: payload 5 bytes, chunk size 2, written as 1+4 bytes (per-instance constants: boundary residue 5 mod 2 = 1); uncompressed; channel replaced by its FIFO contract (producer runs to completion first); unwind 10
+//@ oracle: byte-for-byte comparison with the payload; exactly-one-last; pull count = ceil(n/chunk) (1 for empty)
+//@ stubs: mpsc::SyncSender::send / Receiver::recv -> in-memory FIFO (std channel blocking/futex paths not modelled)
+c09_pipeline!(c09_pipeline_n5_cb2_w1, 5, 2, 1);
+
+//@ name: c09_pipeline_n5_cb2_w2
+//@ prop: C09
+//@ tier: thorough
+//@ clause: the concatenation of pulled chunks is exactly the produced byte stream; exactly one pulled chunk, the final one, carries the end marker; non-final chunks are full-size; an empty payload yields a single empty final chunk; the last flag is the 1-byte response query
+//@ funcs: ChunkSink::new; ChunkSink::write; ChunkSink::send_chunk; ChunkSink::flush; ChunkSink::flush_remaining; Session::pull; Session::recv; value_stream::chunk_response
+//@ symbolic: all payload bytes
+//@ bounds: payload 5 bytes, chunk size 2, written as 2+3 bytes (per-instance constants: boundary residue 5 mod 2 = 1); uncompressed; channel replaced by its FIFO contract (producer runs to completion first); unwind 10
+//@ oracle: byte-for-byte comparison with the payload; exactly-one-last; pull count = ceil(n/chunk) (1 for empty)
+//@ stubs: mpsc::SyncSender::send / Receiver::recv -> in-memory FIFO (std channel blocking/futex paths not modelled)
+c09_pipeline!(c09_pipeline_n5_cb2_w2, 5, 2, 2);
+
+//@ name: c09_pipeline_n5_cb2_w5
+//@ prop: C09
+//@ tier: thorough
+//@ clause: the concatenation of pulled chunks is exactly the produced byte stream; exactly one pulled chunk, the final one, carries the end marker; non-final chunks are full-size; an empty payload yields a single empty final chunk; the last flag is the 1-byte response query
+//@ funcs: ChunkSink::new; ChunkSink::write; ChunkSink::send_chunk; ChunkSink::flush; ChunkSink::flush_remaining; Session::pull; Session::recv; value_stream::chunk_response
+//@ symbolic: all payload bytes
+//@ bounds: payload 5 bytes, chunk size 2, written as 5+0 bytes (per-instance constants: boundary residue 5 mod 2 = 1); uncompressed; channel replaced by its FIFO contract (producer runs to completion first); unwind 10
+//@ oracle: byte-for-byte comparison with the payload; exactly-one-last; pull count = ceil(n/chunk) (1 for empty)
+//@ stubs: mpsc::SyncSender::send / Receiver::recv -> in-memory FIFO (std channel blocking/futex paths not modelled)
+c09_pipeline!(c09_pipeline_n5_cb2_w5, 5, 2, 5);
+
+//@ name: c09_pipeline_n0_cb3_w0
+//@ prop: C09
+//@ tier: thorough
+//@ clause: the concatenation of pulled chunks is exactly the produced byte stream; exactly one pulled chunk, the final one, carries the end marker; non-final chunks are full-size; an empty payload yields a single empty final chunk; the last flag is the 1-byte response query
+//@ funcs: ChunkSink::new; ChunkSink::write; ChunkSink::send_chunk; ChunkSink::flush; ChunkSink::flush_remaining; Session::pull; Session::recv; value_stream::chunk_response
+//@ symbolic: all payload bytes
+//@ bounds: payload 0 bytes, chunk size 3, written as 0+0 bytes (per-instance constants: boundary residue 0 mod 3 = 0); uncompressed; channel replaced by its FIFO contract (producer runs to completion first); unwind 10
+//@ oracle: byte-for-byte comparison with the payload; exactly-one-last; pull count = ceil(n/chunk) (1 for empty)
+//@ stubs: mpsc::SyncSender::send / Receiver::recv -> in-memory FIFO (std channel blocking/futex paths not modelled)
+c09_pipeline!(c09_pipeline_n0_cb3_w0, 0, 3, 0);
+
+//@ name: c09_pipeline_n1_cb3_w0
+//@ prop: C09
+//@ tier: thorough
+//@ clause: the concatenation of pulled chunks is exactly the produced byte stream; exactly one pulled chunk, the final one, carries the end marker; non-final chunks are full-size; an empty payload yields a single empty final chunk; the last flag is the 1-byte response query
+//@ funcs: ChunkSink::new; ChunkSink::write; ChunkSink::send_chunk; ChunkSink::flush; ChunkSink::flush_remaining; Session::pull; Session::recv; value_stream::chunk_response
+//@ symbolic: all payload bytes
+//@ bounds: payload 1 bytes, chunk size 3, written as 0+1 bytes (per-instance constants: boundary residue 1 mod 3 = 1); uncompressed; channel replaced by its FIFO contract (producer runs to completion first); unwind 10
+//@ oracle: byte-for-byte comparison with the payload; exactly-one-last; pull count = ceil(n/chunk) (1 for empty)
+//@ stubs: mpsc::SyncSender::send / Receiver::recv -> in-memory FIFO (std channel blocking/futex paths not modelled)
+c09_pipeline!(c09_pipeline_n1_cb3_w0, 1, 3, 0);
+
+//@ name: c09_pipeline_n1_cb3_w1
+//@ prop: C09
+//@ tier: thorough
+//@ clause: the concatenation of pulled chunks is exactly the produced byte stream; exactly one pulled chunk, the final one, carries the end marker; non-final chunks are full-size; an empty payload yields a single empty final chunk; the last flag is the 1-byte response query
+//@ funcs: ChunkSink::new; ChunkSink::write; ChunkSink::send_chunk; ChunkSink::flush; ChunkSink::flush_remaining; Session::pull; Session::recv; value_stream::chunk_response
+//@ symbolic: all payload bytes
+//@ bounds: payload 1 bytes, chunk size 3, written as 1+0 bytes (per-instance constants: boundary residue 1 mod 3 = 1); uncompressed; channel replaced by its FIFO contract (producer runs to completion first); unwind 10
+//@ oracle: byte-for-byte comparison with the payload; exactly-one-last; pull count = ceil(n/chunk) (1 for empty)
+//@ stubs: mpsc::SyncSender::send / Receiver::recv -> in-memory FIFO (std channel blocking/futex paths not modelled)
+c09_pipeline!(c09_pipeline_n1_cb3_w1, 1, 3, 1);
+
+//@ name: c09_pipeline_n2_cb3_w0
+//@ prop: C09
+//@ tier: thorough
+//@ clause: the concatenation of pulled chunks is exactly the produced byte stream; exactly one pulled chunk, the final one, carries the end marker; non-final chunks are full-size; an empty payload yields a single empty final chunk; the last flag is the 1-byte response query
+//@ funcs: ChunkSink::new; ChunkSink::write; ChunkSink::send_chunk; ChunkSink::flush; ChunkSink::flush_remaining; Session::pull; Session::recv; value_stream::chunk_response
+//@ symbolic: all payload bytes
+//@ bounds: payload 2 bytes, chunk size 3, written as 0+2 bytes (per-instance constants: boundary residue 2 mod 3 = 2); uncompressed; channel replaced by its FIFO contract (producer runs to completion first); unwind 10
+//@ oracle: byte-for-byte comparison with the payload; exactly-one-last; pull count = ceil(n/chunk) (1 for empty)
+//@ stubs: mpsc::SyncSender::send / Receiver::recv -> in-memory FIFO (std channel blocking/futex paths not modelled)
+c09_pipeline!(c09_pipeline_n2_cb3_w0, 2, 3, 0);
+
+//@ name: c09_pipeline_n2_cb3_w1
+//@ prop: C09
+//@ tier: thorough
+//@ clause: the concatenation of pulled chunks is exactly the produced byte stream; exactly one pulled chunk, the final one, carries the end marker; non-final chunks are full-size; an empty payload yields a single empty final chunk; the last flag is the 1-byte response query
+//@ funcs: ChunkSink::new; ChunkSink::write; ChunkSink::send_chunk; ChunkSink::flush; ChunkSink::flush_remaining; Session::pull; Session::recv; value_stream::chunk_response
+//@ symbolic: all payload bytes
+//@ bounds: payload 2 bytes, chunk size 3, written as 1+1 bytes (per-instance constants: boundary residue 2 mod 3 = 2); uncompressed; channel replaced by its FIFO contract (producer runs to completion first); unwind 10
+//@ oracle: byte-for-byte comparison with the payload; exactly-one-last; pull count = ceil(n/chunk) (1 for empty)
+//@ stubs: mpsc::SyncSender::send / Receiver::recv -> in-memory FIFO (std channel blocking/futex paths not modelled)
+c09_pipeline!(c09_pipeline_n2_cb3_w1, 2, 3, 1);
+
+//@ name: c09_pipeline_n2_cb3_w2
+//@ prop: C09
+//@ tier: thorough
+//@ clause: the concatenation of pulled chunks is exactly the produced byte stream; exactly one pulled chunk, the final one, carries the end marker; non-final chunks are full-size; an empty payload yields a single empty final chunk; the last flag is the 1-byte response query
+//@ funcs: ChunkSink::new; ChunkSink::write; ChunkSink::send_chunk; ChunkSink::flush; ChunkSink::flush_remaining; Session::pull; Session::recv; value_stream::chunk_response
+//@ symbolic: all payload bytes
+//@ bounds: payload 2 bytes, chunk size 3, written as 2+0 bytes (per-instance constants: boundary residue 2 mod 3 = 2); uncompressed; channel replaced by its FIFO contract (producer runs to completion first); unwind 10
+//@ oracle: byte-for-byte comparison with the payload; exactly-one-last; pull count = ceil(n/chunk) (1 for empty)
+//@ stubs: mpsc::SyncSender::send / Receiver::recv -> in-memory FIFO (std channel blocking/futex paths not modelled)
+c09_pipeline!(c09_pipeline_n2_cb3_w2, 2, 3, 2);
+
+//@ name: c09_pipeline_n3_cb3_w0
+//@ prop: C09
+//@ tier: thorough
+//@ clause: the concatenation of pulled chunks is exactly the produced byte stream; exactly one pulled chunk, the final one, carries the end marker; non-final chunks are full-size; an empty payload yields a single empty final chunk; the last flag is the 1-byte response query
+//@ funcs: ChunkSink::new; ChunkSink::write; ChunkSink::send_chunk; ChunkSink::flush; ChunkSink::flush_remaining; Session::pull; Session::recv; value_stream::chunk_response
+//@ symbolic: all payload bytes
+//@ bounds: payload 3 bytes, chunk size 3, written as 0+3 bytes (per-instance constants: boundary residue 3 mod 3 = 0); uncompressed; channel replaced by its FIFO contract (producer runs to completion first); unwind 10
+//@ oracle: byte-for-byte comparison with the payload; exactly-one-last; pull count = ceil(n/chunk) (1 for empty)
+//@ stubs: mpsc::SyncSender::send / Receiver::recv -> in-memory FIFO (std channel blocking/futex paths not modelled)
+c09_pipeline!(c09_pipeline_n3_cb3_w0, 3, 3, 0);
+
+//@ name: c09_pipeline_n3_cb3_w1
+//@ prop: C09
+//@ tier: thorough
+//@ clause: the concatenation of pulled chunks is exactly the produced byte stream; exactly one pulled chunk, the final one, carries the end marker; non-final chunks are full-size; an empty payload yields a single empty final chunk; the last flag is the 1-byte response query
+//@ funcs: ChunkSink::new; ChunkSink::write; ChunkSink::send_chunk; ChunkSink::flush; ChunkSink::flush_remaining; Session::pull; Session::recv; value_stream::chunk_response
+//@ symbolic: all payload bytes
+//@ bounds: payload 3 bytes, chunk size 3, written as 1+2 bytes (per-instance constants: boundary residue 3 mod 3 = 0); uncompressed; channel replaced by its FIFO contract (producer runs to completion first); unwind 10
+//@ oracle: byte-for-byte comparison with the payload; exactly-one-last; pull count = ceil(n/chunk) (1 for empty)
+//@ stubs: mpsc::SyncSender::send / Receiver::recv -> in-memory FIFO (std channel blocking/futex paths not modelled)
+c09_pipeline!(c09_pipeline_n3_cb3_w1, 3, 3, 1);
+
+//@ name: c09_pipeline_n3_cb3_w2
+//@ prop: C09
+//@ tier: thorough
+//@ clause: the concatenation of pulled chunks is exactly the produced byte stream; exactly one pulled chunk, the final one, carries the end marker; non-final chunks are full-size; an empty payload yields a single empty final chunk; the last flag is the 1-byte response query
+//@ funcs: ChunkSink::new; ChunkSink::write; ChunkSink::send_chunk; ChunkSink::flush; ChunkSink::flush_remaining; Session::pull; Session::recv; value_stream::chunk_response
+//@ symbolic: all payload bytes
+//@ bounds: payload 3 bytes, chunk size 3, written as 2+1 bytes (per-instance constants: boundary residue 3 mod 3 = 0); uncompressed; channel replaced by its FIFO contract (producer runs to completion first); unwind 10
+//@ oracle: byte-for-byte comparison with the payload; exactly-one-last; pull count = ceil(n/chunk) (1 for empty)
+//@ stubs: mpsc::SyncSender::send / Receiver::recv -> in-memory FIFO (std channel blocking/futex paths not modelled)
+c09_pipeline!(c09_pipeline_n3_cb3_w2, 3, 3, 2);
+
+//@ name: c09_pipeline_n3_cb3_w3
+//@ prop: C09
+//@ tier: thorough
+//@ clause: the concatenation of pulled chunks is exactly the produced byte stream; exactly one pulled chunk, the final one, carries the end marker; non-final chunks are full-size; an empty payload yields a single empty final chunk; the last flag is the 1-byte response query
+//@ funcs: ChunkSink::new; ChunkSink::write; ChunkSink::send_chunk; ChunkSink::flush; ChunkSink::flush_remaining; Session::pull; Session::recv; value_stream::chunk_response
+//@ symbolic: all payload bytes
+//@ bounds: payload 3 bytes, chunk size 3, written as 3+0 bytes (per-instance constants: boundary residue 3 mod 3 = 0); uncompressed; channel replaced by its FIFO contract (producer runs to completion first); unwind 10
+//@ oracle: byte-for-byte comparison with the payload; exactly-one-last; pull count = ceil(n/chunk) (1 for empty)
+//@ stubs: mpsc::SyncSender::send / Receiver::recv -> in-memory FIFO (std channel blocking/futex paths not modelled)
+c09_pipeline!(c09_pipeline_n3_cb3_w3, 3, 3, 3);
+
+//@ name: c09_pipeline_n4_cb3_w0
+//@ prop: C09
+//@ tier: thorough
+//@ clause: the concatenation of pulled chunks is exactly the produced byte stream; exactly one pulled chunk, the final one, carries the end marker; non-final chunks are full-size; an empty payload yields a single empty final chunk; the last flag is the 1-byte response query
+//@ funcs: ChunkSink::new; ChunkSink::write; ChunkSink::send_chunk; ChunkSink::flush; ChunkSink::flush_remaining; Session::pull; Session::recv; value_stream::chunk_response
+//@ symbolic: all payload bytes
+//@ bounds: payload 4 bytes, chunk size 3, written as 0+4 bytes (per-instance constants: boundary residue 4 mod 3 = 1); uncompressed; channel replaced by its FIFO contract (producer runs to completion first); unwind 10
+//@ oracle: byte-for-byte comparison with the payload; exactly-one-last; pull count = ceil(n/chunk) (1 for empty)
+//@ stubs: mpsc::SyncSender::send / Receiver::recv -> in-memory FIFO (std channel blocking/futex paths not modelled)
+c09_pipeline!(c09_pipeline_n4_cb3_w0, 4, 3, 0);
+
+//@ name: c09_pipeline_n4_cb3_w1
+//@ prop: C09
+//@ tier: thorough
+//@ clause: the concatenation of pulled chunks is exactly the produced byte stream; exactly one pulled chunk, the final one, carries the end marker; non-final chunks are full-size; an empty payload yields a single empty final chunk; the last flag is the 1-byte response query
+//@ funcs: ChunkSink::new; ChunkSink::write; ChunkSink::send_chunk; ChunkSink::flush; ChunkSink::flush_remaining; Session::pull; Session::recv; value_stream::chunk_response
+//@ symbolic: all payload bytes
+//@ bounds: payload 4 bytes, chunk size 3, written as 1+3 bytes (per-instance constants: boundary residue 4 mod 3 = 1); uncompressed; channel replaced by its FIFO contract (producer runs to completion first); unwind 10
+//@ oracle: byte-for-byte comparison with the payload; exactly-one-last; pull count = ceil(n/chunk) (1 for empty)
+//@ stubs: mpsc::SyncSender::send / Receiver::recv -> in-memory FIFO (std channel blocking/futex paths not modelled)
+c09_pipeline!(c09_pipeline_n4_cb3_w1, 4, 3, 1);
+
+//@ name: c09_pipeline_n4_cb3_w2
+//@ prop: C09
+//@ tier: thorough
+//@ clause: the concatenation of pulled chunks is exactly the produced byte stream; exactly one pulled chunk, the final one, carries the end marker; non-final chunks are full-size; an empty payload yields a single empty final chunk; the last flag is the 1-byte response query
+//@ funcs: ChunkSink::new; ChunkSink::write; ChunkSink::send_chunk; ChunkSink::flush; ChunkSink::flush_remaining; Session::pull; Session::recv; value_stream::chunk_response
+//@ symbolic: all payload bytes
+//@ bounds: payload 4 bytes, chunk size 3, written as 2+2 bytes (per-instance constants: boundary residue 4 mod 3 = 1); uncompressed; channel replaced by its FIFO contract (producer runs to completion first); unwind 10
+//@ oracle: byte-for-byte comparison with the payload; exactly-one-last; pull count = ceil(n/chunk) (1 for empty)
+//@ stubs: mpsc::SyncSender::send / Receiver::recv -> in-memory FIFO (std channel blocking/futex paths not modelled)
+c09_pipeline!(c09_pipeline_n4_cb3_w2, 4, 3, 2);
+
+//@ name: c09_pipeline_n4_cb3_w4
+//@ prop: C09
+//@ tier: thorough
+//@ clause: the concatenation of pulled chunks is exactly the produced byte stream; exactly one pulled chunk, the final one, carries the end marker; non-final chunks are full-size; an empty payload yields a single empty final chunk; the last flag is the 1-byte response query
+//@ funcs: ChunkSink::new; ChunkSink::write; ChunkSink::send_chunk; ChunkSink::flush; ChunkSink::flush_remaining; Session::pull; Session::recv; value_stream::chunk_response
+//@ symbolic: all payload bytes
+//@ bounds: payload 4 bytes, chunk size 3, written as 4+0 bytes (per-instance constants: boundary residue 4 mod 3 = 1); uncompressed; channel replaced by its FIFO contract (producer runs to completion first); unwind 10
+//@ oracle: byte-for-byte comparison with the payload; exactly-one-last; pull count = ceil(n/chunk) (1 for empty)
+//@ stubs: mpsc::SyncSender::send / Receiver::recv -> in-memory FIFO (std channel blocking/futex paths not modelled)
+c09_pipeline!(c09_pipeline_n4_cb3_w4, 4, 3, 4);
+
+//@ name: c09_pipeline_n5_cb3_w0
+//@ prop: C09
+//@ tier: thorough
+//@ clause: the concatenation of pulled chunks is exactly the produced byte stream; exactly one pulled chunk, the final one, carries the end marker; non-final chunks are full-size; an empty payload yields a single empty final chunk; the last flag is the 1-byte response query
+//@ funcs: ChunkSink::new; ChunkSink::write; ChunkSink::send_chunk; ChunkSink::flush; ChunkSink::flush_remaining; Session::pull; Session::recv; value_stream::chunk_response
+//@ symbolic: all payload bytes
+//@ bounds: payload 5 bytes, chunk size 3, written as 0+5 bytes (per-instance constants: boundary residue 5 mod 3 = 2); uncompressed; channel replaced by its FIFO contract (producer runs to completion first); unwind 10
+//@ oracle: byte-for-byte comparison with the payload; exactly-one-last; pull count = ceil(n/chunk) (1 for empty)
+//@ stubs: mpsc::SyncSender::send / Receiver::recv -> in-memory FIFO (std channel blocking/futex paths not modelled)
+c09_pipeline!(c09_pipeline_n5_cb3_w0, 5, 3, 0);
+
+//@ name: c09_pipeline_n5_cb3_w1
+//@ prop: C09
+//@ tier: thorough
+//@ clause: the concatenation of pulled chunks is exactly the produced byte stream; exactly one pulled chunk, the final one, carries the end marker; non-final chunks are full-size; an empty payload yields a single empty final chunk; the last flag is the 1-byte response query
+//@ funcs: ChunkSink::new; ChunkSink::write; ChunkSink::send_chunk; ChunkSink::flush; ChunkSink::flush_remaining; Session::pull; Session::recv; value_stream::chunk_response
+//@ symbolic: all payload bytes
+//@ bounds: payload 5 bytes, chunk size 3, written as 1+4 bytes (per-instance constants: boundary residue 5 mod 3 = 2); uncompressed; channel replaced by its FIFO contract (producer runs to completion first); unwind 10
+//@ oracle: byte-for-byte comparison with the payload; exactly-one-last; pull count = ceil(n/chunk) (1 for empty)
+//@ stubs: mpsc::SyncSender::send / Receiver::recv -> in-memory FIFO (std channel blocking/futex paths not modelled)
+c09_pipeline!(c09_pipeline_n5_cb3_w1, 5, 3, 1);
+
+//@ name: c09_pipeline_n5_cb3_w5
+//@ prop: C09
+//@ tier: thorough
+//@ clause: the concatenation of pulled chunks is exactly the produced byte stream; exactly one pulled chunk, the final one, carries the end marker; non-final chunks are full-size; an empty payload yields a single empty final chunk; the last flag is the 1-byte response query
+//@ funcs: ChunkSink::new; ChunkSink::write; ChunkSink::send_chunk; ChunkSink::flush; ChunkSink::flush_remaining; Session::pull; Session::recv; value_stream::chunk_response
+//@ symbolic: all payload bytes
+//@ bounds: payload 5 bytes, chunk size 3, written as 5+0 bytes (per-instance constants: boundary residue 5 mod 3 = 2); uncompressed; channel replaced by its FIFO contract (producer runs to completion first); unwind 10
+//@ oracle: byte-for-byte comparison with the payload; exactly-one-last; pull count = ceil(n/chunk) (1 for empty)
+//@ stubs: mpsc::SyncSender::send / Receiver::recv -> in-memory FIFO (std channel blocking/futex paths not modelled)
+c09_pipeline!(c09_pipeline_n5_cb3_w5, 5, 3, 5);
+
+// ===========================================================================
+// C10 (trailer clauses): TrailerHold withholds exactly the last TL bytes
+// ===========================================================================
+fn trailer_hold<const TL: usize, const W1: usize, const W2: usize, const W3: usize>() {
+    let stream: [u8; 9] = kani::any();
+    let total = W1 + W2 + W3;
+    let mut th = TrailerHold::new(ShortSink::<64>::new(), TL);
+    th.write_all(&stream[..W1]).unwrap();
+    th.write_all(&stream[W1..W1 + W2]).unwrap();
+    th.write_all(&stream[W1 + W2..total]).unwrap();
+    th.flush().unwrap();
+    // never buffers more than TL bytes, never forwards a byte of the last TL
+    assert!(th.hold.len() <= TL);
+    let fwd = th.inner.len;
+    let mut i = 0;
+    while i < fwd {
+        assert!(th.inner.out[i] == stream[i], "forwarded bytes are not a prefix of the stream");
+        i += 1;
+    }
+    if total >= TL {
+        assert!(fwd == total - TL, "forwarded more or less than all-but-the-trailer");
+        let t = th.into_trailer();
+        match t {
+            Ok(tr) => {
+                assert!(tr.len() == TL);
+                let mut j = 0;
+                while j < TL {
+                    assert!(tr[j] == stream[total - TL + j], "trailer is not the last bytes of the stream");
+                    j += 1;
+                }
+                std::mem::forget(tr);
+            }
+            Err(_) => panic!("a stream at least as long as the trailer was rejected"),
+        }
+    } else {
+        assert!(fwd == 0, "bytes of a too-short stream were forwarded");
+        let t = th.into_trailer();
+        assert!(t.is_err(), "a stream shorter than the trailer was accepted");
+        std::mem::forget(t);
+    }
+}
+
+macro_rules! c10_trailer {
+    ($name:ident, $tl:expr, $w1:expr, $w2:expr, $w3:expr) => {
+        #[kani::proof]
+        #[kani::stub(std::fmt::format, crate::verif_common::format_stub)]
+        #[kani::unwind(12)]
+        fn $name() {
+            trailer_hold::<$tl, $w1, $w2, $w3>();
+        }
+    };
+}
+
+//@ name: c10_trailer_t2_w131
+//@ prop: C10
+//@ tier: quick
+//@ clause: a verified trailer is stripped exactly: the destination sink receives all but the last 2 byte(s) of the stream, the trailer returned is exactly those last bytes, across arbitrary write sizes; a stream shorter than the trailer is an error and forwards nothing
+//@ funcs: TrailerHold::new; TrailerHold::write; TrailerHold::flush; TrailerHold::into_trailer
+//@ symbolic: all stream bytes
+//@ bounds: trailer_len=2; three writes of 1, 3, 1 bytes (per-instance constants); unwind 12
+//@ oracle: inner == stream[..len-N]; trailer == stream[len-N..]; len < N => Err and nothing forwarded
+//@ stubs: alloc::fmt::format -> stub (only on the too-short error path, text unread)
+c10_trailer!(c10_trailer_t2_w131, 2, 1, 3, 1);
+
+//@ name: c10_trailer_t3_w110
+//@ prop: C10
+//@ tier: quick
+//@ clause: a verified trailer is stripped exactly: the destination sink receives all but the last 3 byte(s) of the stream, the trailer returned is exactly those last bytes, across arbitrary write sizes; a stream shorter than the trailer is an error and forwards nothing
+//@ funcs: TrailerHold::new; TrailerHold::write; TrailerHold::flush; TrailerHold::into_trailer
+//@ symbolic: all stream bytes
+//@ bounds: trailer_len=3; three writes of 1, 1, 0 bytes (per-instance constants); unwind 12
+//@ oracle: inner == stream[..len-N]; trailer == stream[len-N..]; len < N => Err and nothing forwarded
+//@ stubs: alloc::fmt::format -> stub (only on the too-short error path, text unread)
+c10_trailer!(c10_trailer_t3_w110, 3, 1, 1, 0);
+
+//@ name: c10_trailer_t1_w032
+//@ prop: C10
+//@ tier: quick
+//@ clause: a verified trailer is stripped exactly: the destination sink receives all but the last 1 byte(s) of the stream, the trailer returned is exactly those last bytes, across arbitrary write sizes; a stream shorter than the trailer is an error and forwards nothing
+//@ funcs: TrailerHold::new; TrailerHold::write; TrailerHold::flush; TrailerHold::into_trailer
+//@ symbolic: all stream bytes
+//@ bounds: trailer_len=1; three writes of 0, 3, 2 bytes (per-instance constants); unwind 12
+//@ oracle: inner == stream[..len-N]; trailer == stream[len-N..]; len < N => Err and nothing forwarded
+//@ stubs: alloc::fmt::format -> stub (only on the too-short error path, text unread)
+c10_trailer!(c10_trailer_t1_w032, 1, 0, 3, 2);
+
+//@ name: c10_trailer_t2_w311
+//@ prop: C10
+//@ tier: quick
+//@ clause: a verified trailer is stripped exactly: the destination sink receives all but the last 2 byte(s) of the stream, the trailer returned is exactly those last bytes, across arbitrary write sizes; a stream shorter than the trailer is an error and forwards nothing
+//@ funcs: TrailerHold::new; TrailerHold::write; TrailerHold::flush; TrailerHold::into_trailer
+//@ symbolic: all stream bytes
+//@ bounds: trailer_len=2; three writes of 3, 1, 1 bytes (per-instance constants); unwind 12
+//@ oracle: inner == stream[..len-N]; trailer == stream[len-N..]; len < N => Err and nothing forwarded
+//@ stubs: alloc::fmt::format -> stub (only on the too-short error path, text unread)
+c10_trailer!(c10_trailer_t2_w311, 2, 3, 1, 1);
+
+//@ name: c10_trailer_t0_w000
+//@ prop: C10
+//@ tier: thorough
+//@ clause: a verified trailer is stripped exactly: the destination sink receives all but the last 0 byte(s) of the stream, the trailer returned is exactly those last bytes, across arbitrary write sizes; a stream shorter than the trailer is an error and forwards nothing
+//@ funcs: TrailerHold::new; TrailerHold::write; TrailerHold::flush; TrailerHold::into_trailer
+//@ symbolic: all stream bytes
+//@ bounds: trailer_len=0; three writes of 0, 0, 0 bytes (per-instance constants); unwind 12
+//@ oracle: inner == stream[..len-N]; trailer == stream[len-N..]; len < N => Err and nothing forwarded
+//@ stubs: alloc::fmt::format -> stub (only on the too-short error path, text unread)
+c10_trailer!(c10_trailer_t0_w000, 0, 0, 0, 0);
+
+//@ name: c10_trailer_t0_w001
+//@ prop: C10
+//@ tier: thorough
+//@ clause: a verified trailer is stripped exactly: the destination sink receives all but the last 0 byte(s) of the stream, the trailer returned is exactly those last bytes, across arbitrary write sizes; a stream shorter than the trailer is an error and forwards nothing
+//@ funcs: TrailerHold::new; TrailerHold::write; TrailerHold::flush; TrailerHold::into_trailer
+//@ symbolic: all stream bytes
+//@ bounds: trailer_len=0; three writes of 0, 0, 1 bytes (per-instance constants); unwind 12
+//@ oracle: inner == stream[..len-N]; trailer == stream[len-N..]; len < N => Err and nothing forwarded
+//@ stubs: alloc::fmt::format -> stub (only on the too-short error path, text unread)
+c10_trailer!(c10_trailer_t0_w001, 0, 0, 0, 1);
+
+//@ name: c10_trailer_t0_w003
+//@ prop: C10
+//@ tier: thorough
+//@ clause: a verified trailer is stripped exactly: the destination sink receives all but the last 0 byte(s) of the stream, the trailer returned is exactly those last bytes, across arbitrary write sizes; a stream shorter than the trailer is an error and forwards nothing
+//@ funcs: TrailerHold::new; TrailerHold::write; TrailerHold::flush; TrailerHold::into_trailer
+//@ symbolic: all stream bytes
+//@ bounds: trailer_len=0; three writes of 0, 0, 3 bytes (per-instance constants); unwind 12
+//@ oracle: inner == stream[..len-N]; trailer == stream[len-N..]; len < N => Err and nothing forwarded
+//@ stubs: alloc::fmt::format -> stub (only on the too-short error path, text unread)
+c10_trailer!(c10_trailer_t0_w003, 0, 0, 0, 3);
+
+//@ name: c10_trailer_t0_w010
+//@ prop: C10
+//@ tier: thorough
+//@ clause: a verified trailer is stripped exactly: the destination sink receives all but the last 0 byte(s) of the stream, the trailer returned is exactly those last bytes, across arbitrary write sizes; a stream shorter than the trailer is an error and forwards nothing
+//@ funcs: TrailerHold::new; TrailerHold::write; TrailerHold::flush; TrailerHold::into_trailer
+//@ symbolic: all stream bytes
+//@ bounds: trailer_len=0; three writes of 0, 1, 0 bytes (per-instance constants); unwind 12
+//@ oracle: inner == stream[..len-N]; trailer == stream[len-N..]; len < N => Err and nothing forwarded
+//@ stubs: alloc::fmt::format -> stub (only on the too-short error path, text unread)
+c10_trailer!(c10_trailer_t0_w010, 0, 0, 1, 0);
+
+//@ name: c10_trailer_t0_w011
+//@ prop: C10
+//@ tier: thorough
+//@ clause: a verified trailer is stripped exactly: the destination sink receives all but the last 0 byte(s) of the stream, the trailer returned is exactly those last bytes, across arbitrary write sizes; a stream shorter than the trailer is an error and forwards nothing
+//@ funcs: TrailerHold::new; TrailerHold::write; TrailerHold::flush; TrailerHold::into_trailer
+//@ symbolic: all stream bytes
+//@ bounds: trailer_len=0; three writes of 0, 1, 1 bytes (per-instance constants); unwind 12
+//@ oracle: inner == stream[..len-N]; trailer == stream[len-N..]; len < N => Err and nothing forwarded
+//@ stubs: alloc::fmt::format -> stub (only on the too-short error path, text unread)
+c10_trailer!(c10_trailer_t0_w011, 0, 0, 1, 1);
+
+//@ name: c10_trailer_t0_w013
+//@ prop: C10
+//@ tier: thorough
+//@ clause: a verified trailer is stripped exactly: the destination sink receives all but the last 0 byte(s) of the stream, the trailer returned is exactly those last bytes, across arbitrary write sizes; a stream shorter than the trailer is an error and forwards nothing
+//@ funcs: TrailerHold::new; TrailerHold::write; TrailerHold::flush; TrailerHold::into_trailer
+//@ symbolic: all stream bytes
+//@ bounds: trailer_len=0; three writes of 0, 1, 3 bytes (per-instance constants); unwind 12
+//@ oracle: inner == stream[..len-N]; trailer == stream[len-N..]; len < N => Err and nothing forwarded
+//@ stubs: alloc::fmt::format -> stub (only on the too-short error path, text unread)
+c10_trailer!(c10_trailer_t0_w013, 0, 0, 1, 3);
+
+//@ name: c10_trailer_t0_w030
+//@ prop: C10
+//@ tier: thorough
+//@ clause: a verified trailer is stripped exactly: the destination sink receives all but the last 0 byte(s) of the stream, the trailer returned is exactly those last bytes, across arbitrary write sizes; a stream shorter than the trailer is an error and forwards nothing
+//@ funcs: TrailerHold::new; TrailerHold::write; TrailerHold::flush; TrailerHold::into_trailer
+//@ symbolic: all stream bytes
+//@ bounds: trailer_len=0; three writes of 0, 3, 0 bytes (per-instance constants); unwind 12
+//@ oracle: inner == stream[..len-N]; trailer == stream[len-N..]; len < N => Err and nothing forwarded
+//@ stubs: alloc::fmt::format -> stub (only on the too-short error path, text unread)
+c10_trailer!(c10_trailer_t0_w030, 0, 0, 3, 0);
+
+//@ name: c10_trailer_t0_w031
+//@ prop: C10
+//@ tier: thorough
+//@ clause: a verified trailer is stripped exactly: the destination sink receives all but the last 0 byte(s) of the stream, the trailer returned is exactly those last bytes, across arbitrary write sizes; a stream shorter than the trailer is an error and forwards nothing
+//@ funcs: TrailerHold::new; TrailerHold::write; TrailerHold::flush; TrailerHold::into_trailer
+//@ symbolic: all stream bytes
+//@ bounds: trailer_len=0; three writes of 0, 3, 1 bytes (per-instance constants); unwind 12
+//@ oracle: inner == stream[..len-N]; trailer == stream[len-N..]; len < N => Err and nothing forwarded
+//@ stubs: alloc::fmt::format -> stub (only on the too-short error path, text unread)
+c10_trailer!(c10_trailer_t0_w031, 0, 0, 3, 1);
+
+//@ name: c10_trailer_t0_w033
+//@ prop: C10
+//@ tier: thorough
+//@ clause: a verified trailer is stripped exactly: the destination sink receives all but the last 0 byte(s) of the stream, the trailer returned is exactly those last bytes, across arbitrary write sizes; a stream shorter than the trailer is an error and forwards nothing
+//@ funcs: TrailerHold::new; TrailerHold::write; TrailerHold::flush; TrailerHold::into_trailer
+//@ symbolic: all stream bytes
+//@ bounds: trailer_len=0; three writes of 0, 3, 3 bytes (per-instance constants); unwind 12
+//@ oracle: inner == stream[..len-N]; trailer == stream[len-N..]; len < N => Err and nothing forwarded
+//@ stubs: alloc::fmt::format -> stub (only on the too-short error path, text unread)
+c10_trailer!(c10_trailer_t0_w033, 0, 0, 3, 3);
+
+//@ name: c10_trailer_t0_w100
+//@ prop: C10
+//@ tier: thorough
+//@ clause: a verified trailer is stripped exactly: the destination sink receives all but the last 0 byte(s) of the stream, the trailer returned is exactly those last bytes, across arbitrary write sizes; a stream shorter than the trailer is an error and forwards nothing
+//@ funcs: TrailerHold::new; TrailerHold::write; TrailerHold::flush; TrailerHold::into_trailer
+//@ symbolic: all stream bytes
+//@ bounds: trailer_len=0; three writes of 1, 0, 0 bytes (per-instance constants); unwind 12
+//@ oracle: inner == stream[..len-N]; trailer == stream[len-N..]; len < N => Err and nothing forwarded
+//@ stubs: alloc::fmt::format -> stub (only on the too-short error path, text unread)
+c10_trailer!(c10_trailer_t0_w100, 0, 1, 0, 0);
+
+//@ name: c10_trailer_t0_w101
+//@ prop: C10
+//@ tier: thorough
+//@ clause: a verified trailer is stripped exactly: the destination sink receives all but the last 0 byte(s) of the stream, the trailer returned is exactly those last bytes, across arbitrary write sizes; a stream shorter than the trailer is an error and forwards nothing
+//@ funcs: TrailerHold::new; TrailerHold::write; TrailerHold::flush; TrailerHold::into_trailer
+//@ symbolic: all stream bytes
+//@ bounds: trailer_len=0; three writes of 1, 0, 1 bytes (per-instance constants); unwind 12
+//@ oracle: inner == stream[..len-N]; trailer == stream[len-N..]; len < N => Err and nothing forwarded
+//@ stubs: alloc::fmt::format -> stub (only on the too-short error path, text unread)
+c10_trailer!(c10_trailer_t0_w101, 0, 1, 0, 1);
+
+//@ name: c10_trailer_t0_w103
+//@ prop: C10
+//@ tier: thorough
+//@ clause: a verified trailer is stripped exactly: the destination sink receives all but the last 0 byte(s) of the stream, the trailer returned is exactly those last bytes, across arbitrary write sizes; a stream shorter than the trailer is an error and forwards nothing
+//@ funcs: TrailerHold::new; TrailerHold::write; TrailerHold::flush; TrailerHold::into_trailer
+//@ symbolic: all stream bytes
+//@ bounds: trailer_len=0; three writes of 1, 0, 3 bytes (per-instance constants); unwind 12
+//@ oracle: inner == stream[..len-N]; trailer == stream[len-N..]; len < N => Err and nothing forwarded
+//@ stubs: alloc::fmt::format -> stub (only on the too-short error path, text unread)
+c10_trailer!(c10_trailer_t0_w103, 0, 1, 0, 3);
+
+//@ name: c10_trailer_t0_w110
+//@ prop: C10
+//@ tier: thorough
+//@ clause: a verified trailer is stripped exactly: the destination sink receives all but the last 0 byte(s) of the stream, the trailer returned is exactly those last bytes, across arbitrary write sizes; a stream shorter than the trailer is an error and forwards nothing
+//@ funcs: TrailerHold::new; TrailerHold::write; TrailerHold::flush; TrailerHold::into_trailer
+//@ symbolic: all stream bytes
+//@ bounds: trailer_len=0; three writes of 1, 1, 0 bytes (per-instance constants); unwind 12
+//@ oracle: inner == stream[..len-N]; trailer == stream[len-N..]; len < N => Err and nothing forwarded
+//@ stubs: alloc::fmt::format -> stub (only on the too-short error path, text unread)
+c10_trailer!(c10_trailer_t0_w110, 0, 1, 1, 0);
+
+//@ name: c10_trailer_t0_w111
+//@ prop: C10
+//@ tier: thorough
+//@ clause: a verified trailer is stripped exactly: the destination sink receives all but the last 0 byte(s) of the stream, the trailer returned is exactly those last bytes, across arbitrary write sizes; a stream shorter than the trailer is an error and forwards nothing
+//@ funcs: TrailerHold::new; TrailerHold::write; TrailerHold::flush; TrailerHold::into_trailer
+//@ symbolic: all stream bytes
+//@ bounds: trailer_len=0; three writes of 1, 1, 1 bytes (per-instance constants); unwind 12
+//@ oracle: inner == stream[..len-N]; trailer == stream[len-N..]; len < N => Err and nothing forwarded
+//@ stubs: alloc::fmt::format -> stub (only on the too-short error path, text unread)
+c10_trailer!(c10_trailer_t0_w111, 0, 1, 1, 1);
+
+//@ name: c10_trailer_t0_w113
+//@ prop: C10
+//@ tier: thorough
+//@ clause: a verified trailer is stripped exactly: the destination sink receives all but the last 0 byte(s) of the stream, the trailer returned is exactly those last bytes, across arbitrary write sizes; a stream shorter than the trailer is an error and forwards nothing
+//@ funcs: TrailerHold::new; TrailerHold::write; TrailerHold::flush; TrailerHold::into_trailer
+//@ symbolic: all stream bytes
+//@ bounds: trailer_len=0; three writes of 1, 1, 3 bytes (per-instance constants); unwind 12
+//@ oracle: inner == stream[..len-N]; trailer == stream[len-N..]; len < N => Err and nothing forwarded
+//@ stubs: alloc::fmt::format -> stub (only on the too-short error path, text unread)
+c10_trailer!(c10_trailer_t0_w113, 0, 1, 1, 3);
+
+//@ name: c10_trailer_t0_w130
+//@ prop: C10
+//@ tier: thorough
+//@ clause: a verified trailer is stripped exactly: the destination sink receives all but the last 0 byte(s) of the stream, the trailer returned is exactly those last bytes, across arbitrary write sizes; a stream shorter than the trailer is an error and forwards nothing
+//@ funcs: TrailerHold::new; TrailerHold::write; TrailerHold::flush; TrailerHold::into_trailer
+//@ symbolic: all stream bytes
+//@ bounds: trailer_len=0; three writes of 1, 3, 0 bytes (per-instance constants); unwind 12
+//@ oracle: inner == stream[..len-N]; trailer == stream[len-N..]; len < N => Err and nothing forwarded
+//@ stubs: alloc::fmt::format -> stub (only on the too-short error path, text unread)
+c10_trailer!(c10_trailer_t0_w130, 0, 1, 3, 0);
+
+//@ name: c10_trailer_t0_w131
+//@ prop: C10
+//@ tier: thorough
+//@ clause: a verified trailer is stripped exactly: the destination sink receives all but the last 0 byte(s) of the stream, the trailer returned is exactly those last bytes, across arbitrary write sizes; a stream shorter than the trailer is an error and forwards nothing
+//@ funcs: TrailerHold::new; TrailerHold::write; TrailerHold::flush; TrailerHold::into_trailer
+//@ symbolic: all stream bytes
+//@ bounds: trailer_len=0; three writes of 1, 3, 1 bytes (per-instance constants); unwind 12
+//@ oracle: inner == stream[..len-N]; trailer == stream[len-N..]; len < N => Err and nothing forwarded
+//@ stubs: alloc::fmt::format -> stub (only on the too-short error path, text unread)
+c10_trailer!(c10_trailer_t0_w131, 0, 1, 3, 1);
+
+//@ name: c10_trailer_t0_w133
+//@ prop: C10
+//@ tier: thorough
+//@ clause: a verified trailer is stripped exactly: the destination sink receives all but the last 0 byte(s) of the stream, the trailer returned is exactly those last bytes, across arbitrary write sizes; a stream shorter than the trailer is an error and forwards nothing
+//@ funcs: TrailerHold::new; TrailerHold::write; TrailerHold::flush; TrailerHold::into_trailer
+//@ symbolic: all stream bytes
+//@ bounds: trailer_len=0; three writes of 1, 3, 3 bytes (per-instance constants); unwind 12
+//@ oracle: inner == stream[..len-N]; trailer == stream[len-N..]; len < N => Err and nothing forwarded
+//@ stubs: alloc::fmt::format -> stub (only on the too-short error path, text unread)
+c10_trailer!(c10_trailer_t0_w133, 0, 1, 3, 3);
+
+//@ name: c10_trailer_t0_w300
+//@ prop: C10
+//@ tier: thorough
+//@ clause: a verified trailer is stripped exactly: the destination sink receives all but the last 0 byte(s) of the stream, the trailer returned is exactly those last bytes, across arbitrary write sizes; a stream shorter than the trailer is an error and forwards nothing
+//@ funcs: TrailerHold::new; TrailerHold::write; TrailerHold::flush; TrailerHold::into_trailer
+//@ symbolic: all stream bytes
+//@ bounds: trailer_len=0; three writes of 3, 0, 0 bytes (per-instance constants); unwind 12
+//@ oracle: inner == stream[..len-N]; trailer == stream[len-N..]; len < N => Err and nothing forwarded
+//@ stubs: alloc::fmt::format -> stub (only on the too-short error path, text unread)
+c10_trailer!(c10_trailer_t0_w300, 0, 3, 0, 0);
+
+//@ name: c10_trailer_t0_w301
+//@ prop: C10
+//@ tier: thorough
+//@ clause: a verified trailer is stripped exactly: the destination sink receives all but the last 0 byte(s) of the stream, the trailer returned is exactly those last bytes, across arbitrary write sizes; a stream shorter than the trailer is an error and forwards nothing
+//@ funcs: TrailerHold::new; TrailerHold::write; TrailerHold::flush; TrailerHold::into_trailer
+//@ symbolic: all stream bytes
+//@ bounds: trailer_len=0; three writes of 3, 0, 1 bytes (per-instance constants); unwind 12
+//@ oracle: inner == stream[..len-N]; trailer == stream[len-N..]; len < N => Err and nothing forwarded
+//@ stubs: alloc::fmt::format -> stub (only on the too-short error path, text unread)
+c10_trailer!(c10_trailer_t0_w301, 0, 3, 0, 1);
+
+//@ name: c10_trailer_t0_w303
+//@ prop: C10
+//@ tier: thorough
+//@ clause: a verified trailer is stripped exactly: the destination sink receives all but the last 0 byte(s) of the stream, the trailer returned is exactly those last bytes, across arbitrary write sizes; a stream shorter than the trailer is an error and forwards nothing
+//@ funcs: TrailerHold::new; TrailerHold::write; TrailerHold::flush; TrailerHold::into_trailer
+//@ symbolic: all stream bytes
+//@ bounds: trailer_len=0; three writes of 3, 0, 3 bytes (per-instance constants); unwind 12
+//@ oracle: inner == stream[..len-N]; trailer == stream[len-N..]; len < N => Err and nothing forwarded
+//@ stubs: alloc::fmt::format -> stub (only on the too-short error path, text unread)
+c10_trailer!(c10_trailer_t0_w303, 0, 3, 0, 3);
+
+//@ name: c10_trailer_t0_w310
+//@ prop: C10
+//@ tier: thorough
+//@ clause: a verified trailer is stripped exactly: the destination sink receives all but the last 0 byte(s) of the stream, the trailer returned is exactly those last bytes, across arbitrary write sizes; a stream shorter than the trailer is an error and forwards nothing
+//@ funcs: TrailerHold::new; TrailerHold::write; TrailerHold::flush; TrailerHold::into_trailer
+//@ symbolic: all stream bytes
+//@ bounds: trailer_len=0; three writes of 3, 1, 0 bytes (per-instance constants); unwind 12
+//@ oracle: inner == stream[..len-N]; trailer == stream[len-N..]; len < N => Err and nothing forwarded
+//@ stubs: alloc::fmt::format -> stub (only on the too-short error path, text unread)
+c10_trailer!(c10_trailer_t0_w310, 0, 3, 1, 0);
+
+//@ name: c10_trailer_t0_w311
+//@ prop: C10
+//@ tier: thorough
+//@ clause: a verified trailer is stripped exactly: the destination sink receives all but the last 0 byte(s) of the stream, the trailer returned is exactly those last bytes, across arbitrary write sizes; a stream shorter than the trailer is an error and forwards nothing
+//@ funcs: TrailerHold::new; TrailerHold::write; TrailerHold::flush; TrailerHold::into_trailer
+//@ symbolic: all stream bytes
+//@ bounds: trailer_len=0; three writes of 3, 1, 1 bytes (per-instance constants); unwind 12
+//@ oracle: inner == stream[..len-N]; trailer == stream[len-N..]; len < N => Err and nothing forwarded
+//@ stubs: alloc::fmt::format -> stub (only on the too-short error path, text unread)
+c10_trailer!(c10_trailer_t0_w311, 0, 3, 1, 1);
+
+//@ name: c10_trailer_t0_w313
+//@ prop: C10
+//@ tier: thorough
+//@ clause: a verified trailer is stripped exactly: the destination sink receives all but the last 0 byte(s) of the stream, the trailer returned is exactly those last bytes, across arbitrary write sizes; a stream shorter than the trailer is an error and forwards nothing
+//@ funcs: TrailerHold::new; TrailerHold::write; TrailerHold::flush; TrailerHold::into_trailer
+//@ symbolic: all stream bytes
+//@ bounds: trailer_len=0; three writes of 3, 1, 3 bytes (per-instance constants); unwind 12
+//@ oracle: inner == stream[..len-N]; trailer == stream[len-N..]; len < N => Err and nothing forwarded
+//@ stubs: alloc::fmt::format -> stub (only on the too-short error path, text unread)
+c10_trailer!(c10_trailer_t0_w313, 0, 3, 1, 3);
+
+//@ name: c10_trailer_t0_w330
+//@ prop: C10
+//@ tier: thorough
+//@ clause: a verified trailer is stripped exactly: the destination sink receives all but the last 0 byte(s) of the stream, the trailer returned is exactly those last bytes, across arbitrary write sizes; a stream shorter than the trailer is an error and forwards nothing
+//@ funcs: TrailerHold::new; TrailerHold::write; TrailerHold::flush; TrailerHold::into_trailer
+//@ symbolic: all stream bytes
+//@ bounds: trailer_len=0; three writes of 3, 3, 0 bytes (per-instance constants); unwind 12
+//@ oracle: inner == stream[..len-N]; trailer == stream[len-N..]; len < N => Err and nothing forwarded
+//@ stubs: alloc::fmt::format -> stub (only on the too-short error path, text unread)
+c10_trailer!(c10_trailer_t0_w330, 0, 3, 3, 0);
+
+//@ name: c10_trailer_t0_w331
+//@ prop: C10
+//@ tier: thorough
+//@ clause: a verified trailer is stripped exactly: the destination sink receives all but the last 0 byte(s) of the stream, the trailer returned is exactly those last bytes, across arbitrary write sizes; a stream shorter than the trailer is an error and forwards nothing
+//@ funcs: TrailerHold::new; TrailerHold::write; TrailerHold::flush; TrailerHold::into_trailer
+//@ symbolic: all stream bytes
+//@ bounds: trailer_len=0; three writes of 3, 3, 1 bytes (per-instance constants); unwind 12
+//@ oracle: inner == stream[..len-N]; trailer == stream[len-N..]; len < N => Err and nothing forwarded
+//@ stubs: alloc::fmt::format -> stub (only on the too-short error path, text unread)
+c10_trailer!(c10_trailer_t0_w331, 0, 3, 3, 1);
+
+//@ name: c10_trailer_t0_w333
+//@ prop: C10
+//@ tier: thorough
+//@ clause: a verified trailer is stripped exactly: the destination sink receives all but the last 0 byte(s) of the stream, the trailer returned is exactly those last bytes, across arbitrary write sizes; a stream shorter than the trailer is an error and forwards nothing
+//@ funcs: TrailerHold::new; TrailerHold::write; TrailerHold::flush; TrailerHold::into_trailer
+//@ symbolic: all stream bytes
+//@ bounds: trailer_len=0; three writes of 3, 3, 3 bytes (per-instance constants); unwind 12
+//@ oracle: inner == stream[..len-N]; trailer == stream[len-N..]; len < N => Err and nothing forwarded
+//@ stubs: alloc::fmt::format -> stub (only on the too-short error path, text unread)
+c10_trailer!(c10_trailer_t0_w333, 0, 3, 3, 3);
+
+//@ name: c10_trailer_t1_w000
+//@ prop: C10
+//@ tier: thorough
+//@ clause: a verified trailer is stripped exactly: the destination sink receives all but the last 1 byte(s) of the stream, the trailer returned is exactly those last bytes, across arbitrary write sizes; a stream shorter than the trailer is an error and forwards nothing
+//@ funcs: TrailerHold::new; TrailerHold::write; TrailerHold::flush; TrailerHold::into_trailer
+//@ symbolic: all stream bytes
+//@ bounds: trailer_len=1; three writes of 0, 0, 0 bytes (per-instance constants); unwind 12
+//@ oracle: inner == stream[..len-N]; trailer == stream[len-N..]; len < N => Err and nothing forwarded
+//@ stubs: alloc::fmt::format -> stub (only on the too-short error path, text unread)
+c10_trailer!(c10_trailer_t1_w000, 1, 0, 0, 0);
+
+//@ name: c10_trailer_t1_w001
+//@ prop: C10
+//@ tier: thorough
+//@ clause: a verified trailer is stripped exactly: the destination sink receives all but the last 1 byte(s) of the stream, the trailer returned is exactly those last bytes, across arbitrary write sizes; a stream shorter than the trailer is an error and forwards nothing
+//@ funcs: TrailerHold::new; TrailerHold::write; TrailerHold::flush; TrailerHold::into_trailer
+//@ symbolic: all stream bytes
+//@ bounds: trailer_len=1; three writes of 0, 0, 1 bytes (per-instance constants); unwind 12
+//@ oracle: inner == stream[..len-N]; trailer == stream[len-N..]; len < N => Err and nothing forwarded
+//@ stubs: alloc::fmt::format -> stub (only on the too-short error path, text unread)
+c10_trailer!(c10_trailer_t1_w001, 1, 0, 0, 1);
+
+//@ name: c10_trailer_t1_w003
+//@ prop: C10
+//@ tier: thorough
+//@ clause: a verified trailer is stripped exactly: the destination sink receives all but the last 1 byte(s) of the stream, the trailer returned is exactly those last bytes, across arbitrary write sizes; a stream shorter than the trailer is an error and forwards nothing
+//@ funcs: TrailerHold::new; TrailerHold::write; TrailerHold::flush; TrailerHold::into_trailer
+//@ symbolic: all stream bytes
+//@ bounds: trailer_len=1; three writes of 0, 0, 3 bytes (per-instance constants); unwind 12
+//@ oracle: inner == stream[..len-N]; trailer == stream[len-N..]; len < N => Err and nothing forwarded
+//@ stubs: alloc::fmt::format -> stub (only on the too-short error path, text unread)
+c10_trailer!(c10_trailer_t1_w003, 1, 0, 0, 3);
+
+//@ name: c10_trailer_t1_w010
+//@ prop: C10
+//@ tier: thorough
+//@ clause: a verified trailer is stripped exactly: the destination sink receives all but the last 1 byte(s) of the stream, the trailer returned is exactly those last bytes, across arbitrary write sizes; a stream shorter than the trailer is an error and forwards nothing
+//@ funcs: TrailerHold::new; TrailerHold::write; TrailerHold::flush; TrailerHold::into_trailer
+//@ symbolic: all stream bytes
+//@ bounds: trailer_len=1; three writes of 0, 1, 0 bytes (per-instance constants); unwind 12
+//@ oracle: inner == stream[..len-N]; trailer == stream[len-N..]; len < N => Err and nothing forwarded
+//@ stubs: alloc::fmt::format -> stub (only on the too-short error path, text unread)
+c10_trailer!(c10_trailer_t1_w010, 1, 0, 1, 0);
+
+//@ name: c10_trailer_t1_w011
+//@ prop: C10
+//@ tier: thorough
+//@ clause: a verified trailer is stripped exactly: the destination sink receives all but the last 1 byte(s) of the stream, the trailer returned is exactly those last bytes, across arbitrary write sizes; a stream shorter than the trailer is an error and forwards nothing
+//@ funcs: TrailerHold::new; TrailerHold::write; TrailerHold::flush; TrailerHold::into_trailer
+//@ symbolic: all stream bytes
+//@ bounds: trailer_len=1; three writes of 0, 1, 1 bytes (per-instance constants); unwind 12
+//@ oracle: inner == stream[..len-N]; trailer == stream[len-N..]; len < N => Err and nothing forwarded
+//@ stubs: alloc::fmt::format -> stub (only on the too-short error path, text unread)
+c10_trailer!(c10_trailer_t1_w011, 1, 0, 1, 1);
+
+//@ name: c10_trailer_t1_w013
+//@ prop: C10
+//@ tier: thorough
+//@ clause: a verified trailer is stripped exactly: the destination sink receives all but the last 1 byte(s) of the stream, the trailer returned is exactly those last bytes, across arbitrary write sizes; a stream shorter than the trailer is an error and forwards nothing
+//@ funcs: TrailerHold::new; TrailerHold::write; TrailerHold::flush; TrailerHold::into_trailer
+//@ symbolic: all stream bytes
+//@ bounds: trailer_len=1; three writes of 0, 1, 3 bytes (per-instance constants); unwind 12
+//@ oracle: inner == stream[..len-N]; trailer == stream[len-N..]; len < N => Err and nothing forwarded
+//@ stubs: alloc::fmt::format -> stub (only on the too-short error path, text unread)
+c10_trailer!(c10_trailer_t1_w013, 1, 0, 1, 3);
+
+//@ name: c10_trailer_t1_w030
+//@ prop: C10
+//@ tier: thorough
+//@ clause: a verified trailer is stripped exactly: the destination sink receives all but the last 1 byte(s) of the stream, the trailer returned is exactly those last bytes, across arbitrary write sizes; a stream shorter than the trailer is an error and forwards nothing
+//@ funcs: TrailerHold::new; TrailerHold::write; TrailerHold::flush; TrailerHold::into_trailer
+//@ symbolic: all stream bytes
+//@ bounds: trailer_len=1; three writes of 0, 3, 0 bytes (per-instance constants); unwind 12
+//@ oracle: inner == stream[..len-N]; trailer == stream[len-N..]; len < N => Err and nothing forwarded
+//@ stubs: alloc::fmt::format -> stub (only on the too-short error path, text unread)
+c10_trailer!(c10_trailer_t1_w030, 1, 0, 3, 0);
+
+//@ name: c10_trailer_t1_w031
+//@ prop: C10
+//@ tier: thorough
+//@ clause: a verified trailer is stripped exactly: the destination sink receives all but the last 1 byte(s) of the stream, the trailer returned is exactly those last bytes, across arbitrary write sizes; a stream shorter than the trailer is an error and forwards nothing
+//@ funcs: TrailerHold::new; TrailerHold::write; TrailerHold::flush; TrailerHold::into_trailer
+//@ symbolic: all stream bytes
+//@ bounds: trailer_len=1; three writes of 0, 3, 1 bytes (per-instance constants); unwind 12
+//@ oracle: inner == stream[..len-N]; trailer == stream[len-N..]; len < N => Err and nothing forwarded
+//@ stubs: alloc::fmt::format -> stub (only on the too-short error path, text unread)
+c10_trailer!(c10_trailer_t1_w031, 1, 0, 3, 1);
+
+//@ name: c10_trailer_t1_w033
+//@ prop: C10
+//@ tier: thorough
+//@ clause: a verified trailer is stripped exactly: the destination sink receives all but the last 1 byte(s) of the stream, the trailer returned is exactly those last bytes, across arbitrary write sizes; a stream shorter than the trailer is an error and forwards nothing
+//@ funcs: TrailerHold::new; TrailerHold::write; TrailerHold::flush; TrailerHold::into_trailer
+//@ symbolic: all stream bytes
+//@ bounds: trailer_len=1; three writes of 0, 3, 3 bytes (per-instance constants); unwind 12
+//@ oracle: inner == stream[..len-N]; trailer == stream[len-N..]; len < N => Err and nothing forwarded
+//@ stubs: alloc::fmt::format -> stub (only on the too-short error path, text unread)
+c10_trailer!(c10_trailer_t1_w033, 1, 0, 3, 3);
+
+//@ name: c10_trailer_t1_w100
+//@ prop: C10
+//@ tier: thorough
+//@ clause: a verified trailer is stripped exactly: the destination sink receives all but the last 1 byte(s) of the stream, the trailer returned is exactly those last bytes, across arbitrary write sizes; a stream shorter than the trailer is an error and forwards nothing
+//@ funcs: TrailerHold::new; TrailerHold::write; TrailerHold::flush; TrailerHold::into_trailer
+//@ symbolic: all stream bytes
+//@ bounds: trailer_len=1; three writes of 1, 0, 0 bytes (per-instance constants); unwind 12
+//@ oracle: inner == stream[..len-N]; trailer == stream[len-N..]; len < N => Err and nothing forwarded
+//@ stubs: alloc::fmt::format -> stub (only on the too-short error path, text unread)
+c10_trailer!(c10_trailer_t1_w100, 1, 1, 0, 0);
+
+//@ name: c10_trailer_t1_w101
+//@ prop: C10
+//@ tier: thorough
+//@ clause: a verified trailer is stripped exactly: the destination sink receives all but the last 1 byte(s) of the stream, the trailer returned is exactly those last bytes, across arbitrary write sizes; a stream shorter than the trailer is an error and forwards nothing
+//@ funcs: TrailerHold::new; TrailerHold::write; TrailerHold::flush; TrailerHold::into_trailer
+//@ symbolic: all stream bytes
+//@ bounds: trailer_len=1; three writes of 1, 0, 1 bytes (per-instance constants); unwind 12
+//@ oracle: inner == stream[..len-N]; trailer == stream[len-N..]; len < N => Err and nothing forwarded
+//@ stubs: alloc::fmt::format -> stub (only on the too-short error path, text unread)
+c10_trailer!(c10_trailer_t1_w101, 1, 1, 0, 1);
+
+//@ name: c10_trailer_t1_w103
+//@ prop: C10
+//@ tier: thorough
+//@ clause: a verified trailer is stripped exactly: the destination sink receives all but the last 1 byte(s) of the stream, the trailer returned is exactly those last bytes, across arbitrary write sizes; a stream shorter than the trailer is an error and forwards nothing
+//@ funcs: TrailerHold::new; TrailerHold::write; TrailerHold::flush; TrailerHold::into_trailer
+//@ symbolic: all stream bytes
+//@ bounds: trailer_len=1; three writes of 1, 0, 3 bytes (per-instance constants); unwind 12
+//@ oracle: inner == stream[..len-N]; trailer == stream[len-N..]; len < N => Err and nothing forwarded
+//@ stubs: alloc::fmt::format -> stub (only on the too-short error path, text unread)
+c10_trailer!(c10_trailer_t1_w103, 1, 1, 0, 3);
+
+//@ name: c10_trailer_t1_w110
+//@ prop: C10
+//@ tier: thorough
+//@ clause: a verified trailer is stripped exactly: the destination sink receives all but the last 1 byte(s) of the stream, the trailer returned is exactly those last bytes, across arbitrary write sizes; a stream shorter than the trailer is an error and forwards nothing
+//@ funcs: TrailerHold::new; TrailerHold::write; TrailerHold::flush; TrailerHold::into_trailer
+//@ symbolic: all stream bytes
+//@ bounds: trailer_len=1; three writes of 1, 1, 0 bytes (per-instance constants); unwind 12
+//@ oracle: inner == stream[..len-N]; trailer == stream[len-N..]; len < N => Err and nothing forwarded
+//@ stubs: alloc::fmt::format -> stub (only on the too-short error path, text unread)
+c10_trailer!(c10_trailer_t1_w110, 1, 1, 1, 0);
+
+//@ name: c10_trailer_t1_w111
+//@ prop: C10
+//@ tier: thorough
+//@ clause: a verified trailer is stripped exactly: the destination sink receives all but the last 1 byte(s) of the stream, the trailer returned is exactly those last bytes, across arbitrary write sizes; a stream shorter than the trailer is an error and forwards nothing
+//@ funcs: TrailerHold::new; TrailerHold::write; TrailerHold::flush; TrailerHold::into_trailer
+//@ symbolic: all stream bytes
+//@ bounds: trailer_len=1; three writes of 1, 1, 1 bytes (per-instance constants); unwind 12
+//@ oracle: inner == stream[..len-N]; trailer == stream[len-N..]; len < N => Err and nothing forwarded
+//@ stubs: alloc::fmt::format -> stub (only on the too-short error path, text unread)
+c10_trailer!(c10_trailer_t1_w111, 1, 1, 1, 1);
+
+//@ name: c10_trailer_t1_w113
+//@ prop: C10
+//@ tier: thorough
+//@ clause: a verified trailer is stripped exactly: the destination sink receives all but the last 1 byte(s) of the stream, the trailer returned is exactly those last bytes, across arbitrary write sizes; a stream shorter than the trailer is an error and forwards nothing
+//@ funcs: TrailerHold::new; TrailerHold::write; TrailerHold::flush; TrailerHold::into_trailer
+//@ symbolic: all stream bytes
+//@ bounds: trailer_len=1; three writes of 1, 1, 3 bytes (per-instance constants); unwind 12
+//@ oracle: inner == stream[..len-N]; trailer == stream[len-N..]; len < N => Err and nothing forwarded
+//@ stubs: alloc::fmt::format -> stub (only on the too-short error path, text unread)
+c10_trailer!(c10_trailer_t1_w113, 1, 1, 1, 3);
+
+//@ name: c10_trailer_t1_w130
+//@ prop: C10
+//@ tier: thorough
+//@ clause: a verified trailer is stripped exactly: the destination sink receives all but the last 1 byte(s) of the stream, the trailer returned is exactly those last bytes, across arbitrary write sizes; a stream shorter than the trailer is an error and forwards nothing
+//@ funcs: TrailerHold::new; TrailerHold::write; TrailerHold::flush; TrailerHold::into_trailer
+//@ symbolic: all stream bytes
+//@ bounds: trailer_len=1; three writes of 1, 3, 0 bytes (per-instance constants); unwind 12
+//@ oracle: inner == stream[..len-N]; trailer == stream[len-N..]; len < N => Err and nothing forwarded
+//@ stubs: alloc::fmt::format -> stub (only on the too-short error path, text unread)
+c10_trailer!(c10_trailer_t1_w130, 1, 1, 3, 0);
+
+//@ name: c10_trailer_t1_w131
+//@ prop: C10
+//@ tier: thorough
+//@ clause: a verified trailer is stripped exactly: the destination sink receives all but the last 1 byte(s) of the stream, the trailer returned is exactly those last bytes, across arbitrary write sizes; a stream shorter than the trailer is an error and forwards nothing
+//@ funcs: TrailerHold::new; TrailerHold::write; TrailerHold::flush; TrailerHold::into_trailer
+//@ symbolic: all stream bytes
+//@ bounds: trailer_len=1; three writes of 1, 3, 1 bytes (per-instance constants); unwind 12
+//@ oracle: inner == stream[..len-N]; trailer == stream[len-N..]; len < N => Err and nothing forwarded
+//@ stubs: alloc::fmt::format -> stub (only on the too-short error path, text unread)
+c10_trailer!(c10_trailer_t1_w131, 1, 1, 3, 1);
+
+//@ name: c10_trailer_t1_w133
+//@ prop: C10
+//@ tier: thorough
+//@ clause: a verified trailer is stripped exactly: the destination sink receives all but the last 1 byte(s) of the stream, the trailer returned is exactly those last bytes, across arbitrary write sizes; a stream shorter than the trailer is an error and forwards nothing
+//@ funcs: TrailerHold::new; TrailerHold::write; TrailerHold::flush; TrailerHold::into_trailer
+//@ symbolic: all stream bytes
+//@ bounds: trailer_len=1; three writes of 1, 3, 3 bytes (per-instance constants); unwind 12
+//@ oracle: inner == stream[..len-N]; trailer == stream[len-N..]; len < N => Err and nothing forwarded
+//@ stubs: alloc::fmt::format -> stub (only on the too-short error path, text unread)
+c10_trailer!(c10_trailer_t1_w133, 1, 1, 3, 3);
+
+//@ name: c10_trailer_t1_w300
+//@ prop: C10
+//@ tier: thorough
+//@ clause: a verified trailer is stripped exactly: the destination sink receives all but the last 1 byte(s) of the stream, the trailer returned is exactly those last bytes, across arbitrary write sizes; a stream shorter than the trailer is an error and forwards nothing
+//@ funcs: TrailerHold::new; TrailerHold::write; TrailerHold::flush; TrailerHold::into_trailer
+//@ symbolic: all stream bytes
+//@ bounds: trailer_len=1; three writes of 3, 0, 0 bytes (per-instance constants); unwind 12
+//@ oracle: inner == stream[..len-N]; trailer == stream[len-N..]; len < N => Err and nothing forwarded
+//@ stubs: alloc::fmt::format -> stub (only on the too-short error path, text unread)
+c10_trailer!(c10_trailer_t1_w300, 1, 3, 0, 0);
+
+//@ name: c10_trailer_t1_w301
+//@ prop: C10
+//@ tier: thorough
+//@ clause: a verified trailer is stripped exactly: the destination sink receives all but the last 1 byte(s) of the stream, the trailer returned is exactly those last bytes, across arbitrary write sizes; a stream shorter than the trailer is an error and forwards nothing
+//@ funcs: TrailerHold::new; TrailerHold::write; TrailerHold::flush; TrailerHold::into_trailer
+//@ symbolic: all stream bytes
+//@ bounds: trailer_len=1; three writes of 3, 0, 1 bytes (per-instance constants); unwind 12
+//@ oracle: inner == stream[..len-N]; trailer == stream[len-N..]; len < N => Err and nothing forwarded
+//@ stubs: alloc::fmt::format -> stub (only on the too-short error path, text unread)
+c10_trailer!(c10_trailer_t1_w301, 1, 3, 0, 1);
+
+//@ name: c10_trailer_t1_w303
+//@ prop: C10
+//@ tier: thorough
+//@ clause: a verified trailer is stripped exactly: the destination sink receives all but the last 1 byte(s) of the stream, the trailer returned is exactly those last bytes, across arbitrary write sizes; a stream shorter than the trailer is an error and forwards nothing
+//@ funcs: TrailerHold::new; TrailerHold::write; TrailerHold::flush; TrailerHold::into_trailer
+//@ symbolic: all stream bytes
+//@ bounds: trailer_len=1; three writes of 3, 0, 3 bytes (per-instance constants); unwind 12
+//@ oracle: inner == stream[..len-N]; trailer == stream[len-N..]; len < N => Err and nothing forwarded
+//@ stubs: alloc::fmt::format -> stub (only on the too-short error path, text unread)
+c10_trailer!(c10_trailer_t1_w303, 1, 3, 0, 3);
+
+//@ name: c10_trailer_t1_w310
+//@ prop: C10
+//@ tier: thorough
+//@ clause: a verified trailer is stripped exactly: the destination sink receives all but the last 1 byte(s) of the stream, the trailer returned is exactly those last bytes, across arbitrary write sizes; a stream shorter than the trailer is an error and forwards nothing
+//@ funcs: TrailerHold::new; TrailerHold::write; TrailerHold::flush; TrailerHold::into_trailer
+//@ symbolic: all stream bytes
+//@ bounds: trailer_len=1; three writes of 3, 1, 0 bytes (per-instance constants); unwind 12
+//@ oracle: inner == stream[..len-N]; trailer == stream[len-N..]; len < N => Err and nothing forwarded
+//@ stubs: alloc::fmt::format -> stub (only on the too-short error path, text unread)
+c10_trailer!(c10_trailer_t1_w310, 1, 3, 1, 0);
+
+//@ name: c10_trailer_t1_w311
+//@ prop: C10
+//@ tier: thorough
+//@ clause: a verified trailer is stripped exactly: the destination sink receives all but the last 1 byte(s) of the stream, the trailer returned is exactly those last bytes, across arbitrary write sizes; a stream shorter than the trailer is an error and forwards nothing
+//@ funcs: TrailerHold::new; TrailerHold::write; TrailerHold::flush; TrailerHold::into_trailer
+//@ symbolic: all stream bytes
+//@ bounds: trailer_len=1; three writes of 3, 1, 1 bytes (per-instance constants); unwind 12
+//@ oracle: inner == stream[..len-N]; trailer == stream[len-N..]; len < N => Err and nothing forwarded
+//@ stubs: alloc::fmt::format -> stub (only on the too-short error path, text unread)
+c10_trailer!(c10_trailer_t1_w311, 1, 3, 1, 1);
+
+//@ name: c10_trailer_t1_w313
+//@ prop: C10
+//@ tier: thorough
+//@ clause: a verified trailer is stripped exactly: the destination sink receives all but the last 1 byte(s) of the stream, the trailer returned is exactly those last bytes, across arbitrary write sizes; a stream shorter than the trailer is an error and forwards nothing
+//@ funcs: TrailerHold::new; TrailerHold::write; TrailerHold::flush; TrailerHold::into_trailer
+//@ symbolic: all stream bytes
+//@ bounds: trailer_len=1; three writes of 3, 1, 3 bytes (per-instance constants); unwind 12
+//@ oracle: inner == stream[..len-N]; trailer == stream[len-N..]; len < N => Err and nothing forwarded
+//@ stubs: alloc::fmt::format -> stub (only on the too-short error path, text unread)
+c10_trailer!(c10_trailer_t1_w313, 1, 3, 1, 3);
+
+//@ name: c10_trailer_t1_w330
+//@ prop: C10
+//@ tier: thorough
+//@ clause: a verified trailer is stripped exactly: the destination sink receives all but the last 1 byte(s) of the stream, the trailer returned is exactly those last bytes, across arbitrary write sizes; a stream shorter than the trailer is an error and forwards nothing
+//@ funcs: TrailerHold::new; TrailerHold::write; TrailerHold::flush; TrailerHold::into_trailer
+//@ symbolic: all stream bytes
+//@ bounds: trailer_len=1; three writes of 3, 3, 0 bytes (per-instance constants); unwind 12
+//@ oracle: inner == stream[..len-N]; trailer == stream[len-N..]; len < N => Err and nothing forwarded
+//@ stubs: alloc::fmt::format -> stub (only on the too-short error path, text unread)
+c10_trailer!(c10_trailer_t1_w330, 1, 3, 3, 0);
+
+//@ name: c10_trailer_t1_w331
+//@ prop: C10
+//@ tier: thorough
+//@ clause: a verified trailer is stripped exactly: the destination sink receives all but the last 1 byte(s) of the stream, the trailer returned is exactly those last bytes, across arbitrary write sizes; a stream shorter than the trailer is an error and forwards nothing
+//@ funcs: TrailerHold::new; TrailerHold::write; TrailerHold::flush; TrailerHold::into_trailer
+//@ symbolic: all stream bytes
+//@ bounds: trailer_len=1; three writes of 3, 3, 1 bytes (per-instance constants); unwind 12
+//@ oracle: inner == stream[..len-N]; trailer == stream[len-N..]; len < N => Err and nothing forwarded
+//@ stubs: alloc::fmt::format -> stub (only on the too-short error path, text unread)
+c10_trailer!(c10_trailer_t1_w331, 1, 3, 3, 1);
+
+//@ name: c10_trailer_t1_w333
+//@ prop: C10
+//@ tier: thorough
+//@ clause: a verified trailer is stripped exactly: the destination sink receives all but the last 1 byte(s) of the stream, the trailer returned is exactly those last bytes, across arbitrary write sizes; a stream shorter than the trailer is an error and forwards nothing
+//@ funcs: TrailerHold::new; TrailerHold::write; TrailerHold::flush; TrailerHold::into_trailer
+//@ symbolic: all stream bytes
+//@ bounds: trailer_len=1; three writes of 3, 3, 3 bytes (per-instance constants); unwind 12
+//@ oracle: inner == stream[..len-N]; trailer == stream[len-N..]; len < N => Err and nothing forwarded
+//@ stubs: alloc::fmt::format -> stub (only on the too-short error path, text unread)
+c10_trailer!(c10_trailer_t1_w333, 1, 3, 3, 3);
+
+//@ name: c10_trailer_t2_w000
+//@ prop: C10
+//@ tier: thorough
+//@ clause: a verified trailer is stripped exactly: the destination sink receives all but the last 2 byte(s) of the stream, the trailer returned is exactly those last bytes, across arbitrary write sizes; a stream shorter than the trailer is an error and forwards nothing
+//@ funcs: TrailerHold::new; TrailerHold::write; TrailerHold::flush; TrailerHold::into_trailer
+//@ symbolic: all stream bytes
+//@ bounds: trailer_len=2; three writes of 0, 0, 0 bytes (per-instance constants); unwind 12
+//@ oracle: inner == stream[..len-N]; trailer == stream[len-N..]; len < N => Err and nothing forwarded
+//@ stubs: alloc::fmt::format -> stub (only on the too-short error path, text unread)
+c10_trailer!(c10_trailer_t2_w000, 2, 0, 0, 0);
+
+//@ name: c10_trailer_t2_w001
+//@ prop: C10
+//@ tier: thorough
+//@ clause: a verified trailer is stripped exactly: the destination sink receives all but the last 2 byte(s) of the stream, the trailer returned is exactly those last bytes, across arbitrary write sizes; a stream shorter than the trailer is an error and forwards nothing
+//@ funcs: TrailerHold::new; TrailerHold::write; TrailerHold::flush; TrailerHold::into_trailer
+//@ symbolic: all stream bytes
+//@ bounds: trailer_len=2; three writes of 0, 0, 1 bytes (per-instance constants); unwind 12
+//@ oracle: inner == stream[..len-N]; trailer == stream[len-N..]; len < N => Err and nothing forwarded
+//@ stubs: alloc::fmt::format -> stub (only on the too-short error path, text unread)
+c10_trailer!(c10_trailer_t2_w001, 2, 0, 0, 1);
+
+//@ name: c10_trailer_t2_w003
+//@ prop: C10
+//@ tier: thorough
+//@ clause: a verified trailer is stripped exactly: the destination sink receives all but the last 2 byte(s) of the stream, the trailer returned is exactly those last bytes, across arbitrary write sizes; a stream shorter than the trailer is an error and forwards nothing
+//@ funcs: TrailerHold::new; TrailerHold::write; TrailerHold::flush; TrailerHold::into_trailer
+//@ symbolic: all stream bytes
+//@ bounds: trailer_len=2; three writes of 0, 0, 3 bytes (per-instance constants); unwind 12
+//@ oracle: inner == stream[..len-N]; trailer == stream[len-N..]; len < N => Err and nothing forwarded
+//@ stubs: alloc::fmt::format -> stub (only on the too-short error path, text unread)
+c10_trailer!(c10_trailer_t2_w003, 2, 0, 0, 3);
+
+//@ name: c10_trailer_t2_w010
+//@ prop: C10
+//@ tier: thorough
+//@ clause: a verified trailer is stripped exactly: the destination sink receives all but the last 2 byte(s) of the stream, the trailer returned is exactly those last bytes, across arbitrary write sizes; a stream shorter than the trailer is an error and forwards nothing
+//@ funcs: TrailerHold::new; TrailerHold::write; TrailerHold::flush; TrailerHold::into_trailer
+//@ symbolic: all stream bytes
+//@ bounds: trailer_len=2; three writes of 0, 1, 0 bytes (per-instance constants); unwind 12
+//@ oracle: inner == stream[..len-N]; trailer == stream[len-N..]; len < N => Err and nothing forwarded
+//@ stubs: alloc::fmt::format -> stub (only on the too-short error path, text unread)
+c10_trailer!(c10_trailer_t2_w010, 2, 0, 1, 0);
+
+//@ name: c10_trailer_t2_w011
+//@ prop: C10
+//@ tier: thorough
+//@ clause: a verified trailer is stripped exactly: the destination sink receives all but the last 2 byte(s) of the stream, the trailer returned is exactly those last bytes, across arbitrary write sizes; a stream shorter than the trailer is an error and forwards nothing
+//@ funcs: TrailerHold::new; TrailerHold::write; TrailerHold::flush; TrailerHold::into_trailer
+//@ symbolic: all stream bytes
+//@ bounds: trailer_len=2; three writes of 0, 1, 1 bytes (per-instance constants); unwind 12
+//@ oracle: inner == stream[..len-N]; trailer == stream[len-N..]; len < N => Err and nothing forwarded
+//@ stubs: alloc::fmt::format -> stub (only on the too-short error path, text unread)
+c10_trailer!(c10_trailer_t2_w011, 2, 0, 1, 1);
+
+//@ name: c10_trailer_t2_w013
+//@ prop: C10
+//@ tier: thorough
+//@ clause: a verified trailer is stripped exactly: the destination sink receives all but the last 2 byte(s) of the stream, the trailer returned is exactly those last bytes, across arbitrary write sizes; a stream shorter than the trailer is an error and forwards nothing
+//@ funcs: TrailerHold::new; TrailerHold::write; TrailerHold::flush; TrailerHold::into_trailer
+//@ symbolic: all stream bytes
+//@ bounds: trailer_len=2; three writes of 0, 1, 3 bytes (per-instance constants); unwind 12
+//@ oracle: inner == stream[..len-N]; trailer == stream[len-N..]; len < N => Err and nothing forwarded
+//@ stubs: alloc::fmt::format -> stub (only on the too-short error path, text unread)
+c10_trailer!(c10_trailer_t2_w013, 2, 0, 1, 3);
+
+//@ name: c10_trailer_t2_w030
+//@ prop: C10
+//@ tier: thorough
+//@ clause: a verified trailer is stripped exactly: the destination sink receives all but the last 2 byte(s) of the stream, the trailer returned is exactly those last bytes, across arbitrary write sizes; a stream shorter than the trailer is an error and forwards nothing
+//@ funcs: TrailerHold::new; TrailerHold::write; TrailerHold::flush; TrailerHold::into_trailer
+//@ symbolic: all stream bytes
+//@ bounds: trailer_len=2; three writes of 0, 3, 0 bytes (per-instance constants); unwind 12
+//@ oracle: inner == stream[..len-N]; trailer == stream[len-N..]; len < N => Err and nothing forwarded
+//@ stubs: alloc::fmt::format -> stub (only on the too-short error path, text unread)
+c10_trailer!(c10_trailer_t2_w030, 2, 0, 3, 0);
+
+//@ name: c10_trailer_t2_w031
+//@ prop: C10
+//@ tier: thorough
+//@ clause: a verified trailer is stripped exactly: the destination sink receives all but the last 2 byte(s) of the stream, the trailer returned is exactly those last bytes, across arbitrary write sizes; a stream shorter than the trailer is an error and forwards nothing
+//@ funcs: TrailerHold::new; TrailerHold::write; TrailerHold::flush; TrailerHold::into_trailer
+//@ symbolic: all stream bytes
+//@ bounds: trailer_len=2; three writes of 0, 3, 1 bytes (per-instance constants); unwind 12
+//@ oracle: inner == stream[..len-N]; trailer == stream[len-N..]; len < N => Err and nothing forwarded
+//@ stubs: alloc::fmt::format -> stub (only on the too-short error path, text unread)
+c10_trailer!(c10_trailer_t2_w031, 2, 0, 3, 1);
+
+//@ name: c10_trailer_t2_w033
+//@ prop: C10
+//@ tier: thorough
+//@ clause: a verified trailer is stripped exactly: the destination sink receives all but the last 2 byte(s) of the stream, the trailer returned is exactly those last bytes, across arbitrary write sizes; a stream shorter than the trailer is an error and forwards nothing
+//@ funcs: TrailerHold::new; TrailerHold::write; TrailerHold::flush; TrailerHold::into_trailer
+//@ symbolic: all stream bytes
+//@ bounds: trailer_len=2; three writes of 0, 3, 3 bytes (per-instance constants); unwind 12
+//@ oracle: inner == stream[..len-N]; trailer == stream[len-N..]; len < N => Err and nothing forwarded
+//@ stubs: alloc::fmt::format -> stub (only on the too-short error path, text unread)
+c10_trailer!(c10_trailer_t2_w033, 2, 0, 3, 3);
+
+//@ name: c10_trailer_t2_w100
+//@ prop: C10
+//@ tier: thorough
+//@ clause: a verified trailer is stripped exactly: the destination sink receives all but the last 2 byte(s) of the stream, the trailer returned is exactly those last bytes, across arbitrary write sizes; a stream shorter than the trailer is an error and forwards nothing
+//@ funcs: TrailerHold::new; TrailerHold::write; TrailerHold::flush; TrailerHold::into_trailer
+//@ symbolic: all stream bytes
+//@ bounds: trailer_len=2; three writes of 1, 0, 0 bytes (per-instance constants); unwind 12
+//@ oracle: inner == stream[..len-N]; trailer == stream[len-N..]; len < N => Err and nothing forwarded
+//@ stubs: alloc::fmt::format -> stub (only on the too-short error path, text unread)
+c10_trailer!(c10_trailer_t2_w100, 2, 1, 0, 0);
+
+//@ name: c10_trailer_t2_w101
+//@ prop: C10
+//@ tier: thorough
+//@ clause: a verified trailer is stripped exactly: the destination sink receives all but the last 2 byte(s) of the stream, the trailer returned is exactly those last bytes, across arbitrary write sizes; a stream shorter than the trailer is an error and forwards nothing
+//@ funcs: TrailerHold::new; TrailerHold::write; TrailerHold::flush; TrailerHold::into_trailer
+//@ symbolic: all stream bytes
+//@ bounds: trailer_len=2; three writes of 1, 0, 1 bytes (per-instance constants); unwind 12
+//@ oracle: inner == stream[..len-N]; trailer == stream[len-N..]; len < N => Err and nothing forwarded
+//@ stubs: alloc::fmt::format -> stub (only on the too-short error path, text unread)
+c10_trailer!(c10_trailer_t2_w101, 2, 1, 0, 1);
+
+//@ name: c10_trailer_t2_w103
+//@ prop: C10
+//@ tier: thorough
+//@ clause: a verified trailer is stripped exactly: the destination sink receives all but the last 2 byte(s) of the stream, the trailer returned is exactly those last bytes, across arbitrary write sizes; a stream shorter than the trailer is an error and forwards nothing
+//@ funcs: TrailerHold::new; TrailerHold::write; TrailerHold::flush; TrailerHold::into_trailer
+//@ symbolic: all stream bytes
+//@ bounds: trailer_len=2; three writes of 1, 0, 3 bytes (per-instance constants); unwind 12
+//@ oracle: inner == stream[..len-N]; trailer == stream[len-N..]; len < N => Err and nothing forwarded
+//@ stubs: alloc::fmt::format -> stub (only on the too-short error path, text unread)
+c10_trailer!(c10_trailer_t2_w103, 2, 1, 0, 3);
+
+//@ name: c10_trailer_t2_w110
+//@ prop: C10
+//@ tier: thorough
+//@ clause: a verified trailer is stripped exactly: the destination sink receives all but the last 2 byte(s) of the stream, the trailer returned is exactly those last bytes, across arbitrary write sizes; a stream shorter than the trailer is an error and forwards nothing
+//@ funcs: TrailerHold::new; TrailerHold::write; TrailerHold::flush; TrailerHold::into_trailer
+//@ symbolic: all stream bytes
+//@ bounds: trailer_len=2; three writes of 1, 1, 0 bytes (per-instance constants); unwind 12
+//@ oracle: inner == stream[..len-N]; trailer == stream[len-N..]; len < N => Err and nothing forwarded
+//@ stubs: alloc::fmt::format -> stub (only on the too-short error path, text unread)
+c10_trailer!(c10_trailer_t2_w110, 2, 1, 1, 0);
+
+//@ name: c10_trailer_t2_w111
+//@ prop: C10
+//@ tier: thorough
+//@ clause: a verified trailer is stripped exactly: the destination sink receives all but the last 2 byte(s) of the stream, the trailer returned is exactly those last bytes, across arbitrary write sizes; a stream shorter than the trailer is an error and forwards nothing
+//@ funcs: TrailerHold::new; TrailerHold::write; TrailerHold::flush; TrailerHold::into_trailer
+//@ symbolic: all stream bytes
+//@ bounds: trailer_len=2; three writes of 1, 1, 1 bytes (per-instance constants); unwind 12
+//@ oracle: inner == stream[..len-N]; trailer == stream[len-N..]; len < N => Err and nothing forwarded
+//@ stubs: alloc::fmt::format -> stub (only on the too-short error path, text unread)
+c10_trailer!(c10_trailer_t2_w111, 2, 1, 1, 1);
+
+//@ name: c10_trailer_t2_w113
+//@ prop: C10
+//@ tier: thorough
+//@ clause: a verified trailer is stripped exactly: the destination sink receives all but the last 2 byte(s) of the stream, the trailer returned is exactly those last bytes, across arbitrary write sizes; a stream shorter than the trailer is an error and forwards nothing
+//@ funcs: TrailerHold::new; TrailerHold::write; TrailerHold::flush; TrailerHold::into_trailer
+//@ symbolic: all stream bytes
+//@ bounds: trailer_len=2; three writes of 1, 1, 3 bytes (per-instance constants); unwind 12
+//@ oracle: inner == stream[..len-N]; trailer == stream[len-N..]; len < N => Err and nothing forwarded
+//@ stubs: alloc::fmt::format -> stub (only on the too-short error path, text unread)
+c10_trailer!(c10_trailer_t2_w113, 2, 1, 1, 3);
+
+//@ name: c10_trailer_t2_w130
+//@ prop: C10
+//@ tier: thorough
+//@ clause: a verified trailer is stripped exactly: the destination sink receives all but the last 2 byte(s) of the stream, the trailer returned is exactly those last bytes, across arbitrary write sizes; a stream shorter than the trailer is an error and forwards nothing
+//@ funcs: TrailerHold::new; TrailerHold::write; TrailerHold::flush; TrailerHold::into_trailer
+//@ symbolic: all stream bytes
+//@ bounds: trailer_len=2; three writes of 1, 3, 0 bytes (per-instance constants); unwind 12
+//@ oracle: inner == stream[..len-N]; trailer == stream[len-N..]; len < N => Err and nothing forwarded
+//@ stubs: alloc::fmt::format -> stub (only on the too-short error path, text unread)
+c10_trailer!(c10_trailer_t2_w130, 2, 1, 3, 0);
+
+//@ name: c10_trailer_t2_w133
+//@ prop: C10
+//@ tier: thorough
+//@ clause: a verified trailer is stripped exactly: the destination sink receives all but the last 2 byte(s) of the stream, the trailer returned is exactly those last bytes, across arbitrary write sizes; a stream shorter than the trailer is an error and forwards nothing
+//@ funcs: TrailerHold::new; TrailerHold::write; TrailerHold::flush; TrailerHold::into_trailer
+//@ symbolic: all stream bytes
+//@ bounds: trailer_len=2; three writes of 1, 3, 3 bytes (per-instance constants); unwind 12
+//@ oracle: inner == stream[..len-N]; trailer == stream[len-N..]; len < N => Err and nothing forwarded
+//@ stubs: alloc::fmt::format -> stub (only on the too-short error path, text unread)
+c10_trailer!(c10_trailer_t2_w133, 2, 1, 3, 3);
+
+//@ name: c10_trailer_t2_w300
+//@ prop: C10
+//@ tier: thorough
+//@ clause: a verified trailer is stripped exactly: the destination sink receives all but the last 2 byte(s) of the stream, the trailer returned is exactly those last bytes, across arbitrary write sizes; a stream shorter than the trailer is an error and forwards nothing
+//@ funcs: TrailerHold::new; TrailerHold::write; TrailerHold::flush; TrailerHold::into_trailer
+//@ symbolic: all stream bytes
+//@ bounds: trailer_len=2; three writes of 3, 0, 0 bytes (per-instance constants); unwind 12
+//@ oracle: inner == stream[..len-N]; trailer == stream[len-N..]; len < N => Err and nothing forwarded
+//@ stubs: alloc::fmt::format -> stub (only on the too-short error path, text unread)
+c10_trailer!(c10_trailer_t2_w300, 2, 3, 0, 0);
+
+//@ name: c10_trailer_t2_w301
+//@ prop: C10
+//@ tier: thorough
+//@ clause: a verified trailer is stripped exactly: the destination sink receives all but the last 2 byte(s) of the stream, the trailer returned is exactly those last bytes, across arbitrary write sizes; a stream shorter than the trailer is an error and forwards nothing
+//@ funcs: TrailerHold::new; TrailerHold::write; TrailerHold::flush; TrailerHold::into_trailer
+//@ symbolic: all stream bytes
+//@ bounds: trailer_len=2; three writes of 3, 0, 1 bytes (per-instance constants); unwind 12
+//@ oracle: inner == stream[..len-N]; trailer == stream[len-N..]; len < N => Err and nothing forwarded
+//@ stubs: alloc::fmt::format -> stub (only on the too-short error path, text unread)
+c10_trailer!(c10_trailer_t2_w301, 2, 3, 0, 1);
+
+//@ name: c10_trailer_t2_w303
+//@ prop: C10
+//@ tier: thorough
+//@ clause: a verified trailer is stripped exactly: the destination sink receives all but the last 2 byte(s) of the stream, the trailer returned is exactly those last bytes, across arbitrary write sizes; a stream shorter than the trailer is an error and forwards nothing
+//@ funcs: TrailerHold::new; TrailerHold::write; TrailerHold::flush; TrailerHold::into_trailer
+//@ symbolic: all stream bytes
+//@ bounds: trailer_len=2; three writes of 3, 0, 3 bytes (per-instance constants); unwind 12
+//@ oracle: inner == stream[..len-N]; trailer == stream[len-N..]; len < N => Err and nothing forwarded
+//@ stubs: alloc::fmt::format -> stub (only on the too-short error path, text unread)
+c10_trailer!(c10_trailer_t2_w303, 2, 3, 0, 3);
+
+//@ name: c10_trailer_t2_w310
+//@ prop: C10
+//@ tier: thorough
+//@ clause: a verified trailer is stripped exactly: the destination sink receives all but the last 2 byte(s) of the stream, the trailer returned is exactly those last bytes, across arbitrary write sizes; a stream shorter than the trailer is an error and forwards nothing
+//@ funcs: TrailerHold::new; TrailerHold::write; TrailerHold::flush; TrailerHold::into_trailer
+//@ symbolic: all stream bytes
+//@ bounds: trailer_len=2; three writes of 3, 1, 0 bytes (per-instance constants); unwind 12
+//@ oracle: inner == stream[..len-N]; trailer == stream[len-N..]; len < N => Err and nothing forwarded
+//@ stubs: alloc::fmt::format -> stub (only on the too-short error path, text unread)
+c10_trailer!(c10_trailer_t2_w310, 2, 3, 1, 0);
+
+//@ name: c10_trailer_t2_w313
+//@ prop: C10
+//@ tier: thorough
+//@ clause: a verified trailer is stripped exactly: the destination sink receives all but the last 2 byte(s) of the stream, the trailer returned is exactly those last bytes, across arbitrary write sizes; a stream shorter than the trailer is an error and forwards nothing
+//@ funcs: TrailerHold::new; TrailerHold::write; TrailerHold::flush; TrailerHold::into_trailer
+//@ symbolic: all stream bytes
+//@ bounds: trailer_len=2; three writes of 3, 1, 3 bytes (per-instance constants); unwind 12
+//@ oracle: inner == stream[..len-N]; trailer == stream[len-N..]; len < N => Err and nothing forwarded
+//@ stubs: alloc::fmt::format -> stub (only on the too-short error path, text unread)
+c10_trailer!(c10_trailer_t2_w313, 2, 3, 1, 3);
+
+//@ name: c10_trailer_t2_w330
+//@ prop: C10
+//@ tier: thorough
+//@ clause: a verified trailer is stripped exactly: the destination sink receives all but the last 2 byte(s) of the stream, the trailer returned is exactly those last bytes, across arbitrary write sizes; a stream shorter than the trailer is an error and forwards nothing
+//@ funcs: TrailerHold::new; TrailerHold::write; TrailerHold::flush; TrailerHold::into_trailer
+//@ symbolic: all stream bytes
+//@ bounds: trailer_len=2; three writes of 3, 3, 0 bytes (per-instance constants); unwind 12
+//@ oracle: inner == stream[..len-N]; trailer == stream[len-N..]; len < N => Err and nothing forwarded
+//@ stubs: alloc::fmt::format -> stub (only on the too-short error path, text unread)
+c10_trailer!(c10_trailer_t2_w330, 2, 3, 3, 0);
+
+//@ name: c10_trailer_t2_w331
+//@ prop: C10
+//@ tier: thorough
+//@ clause: a verified trailer is stripped exactly: the destination sink receives all but the last 2 byte(s) of the stream, the trailer returned is exactly those last bytes, across arbitrary write sizes; a stream shorter than the trailer is an error and forwards nothing
+//@ funcs: TrailerHold::new; TrailerHold::write; TrailerHold::flush; TrailerHold::into_trailer
+//@ symbolic: all stream bytes
+//@ bounds: trailer_len=2; three writes of 3, 3, 1 bytes (per-instance constants); unwind 12
+//@ oracle: inner == stream[..len-N]; trailer == stream[len-N..]; len < N => Err and nothing forwarded
+//@ stubs: alloc::fmt::format -> stub (only on the too-short error path, text unread)
+c10_trailer!(c10_trailer_t2_w331, 2, 3, 3, 1);
+
+//@ name: c10_trailer_t2_w333
+//@ prop: C10
+//@ tier: thorough
+//@ clause: a verified trailer is stripped exactly: the destination sink receives all but the last 2 byte(s) of the stream, the trailer returned is exactly those last bytes, across arbitrary write sizes; a stream shorter than the trailer is an error and forwards nothing
+//@ funcs: TrailerHold::new; TrailerHold::write; TrailerHold::flush; TrailerHold::into_trailer
+//@ symbolic: all stream bytes
+//@ bounds: trailer_len=2; three writes of 3, 3, 3 bytes (per-instance constants); unwind 12
+//@ oracle: inner == stream[..len-N]; trailer == stream[len-N..]; len < N => Err and nothing forwarded
+//@ stubs: alloc::fmt::format -> stub (only on the too-short error path, text unread)
+c10_trailer!(c10_trailer_t2_w333, 2, 3, 3, 3);
+
+//@ name: c10_trailer_t3_w000
+//@ prop: C10
+//@ tier: thorough
+//@ clause: a verified trailer is stripped exactly: the destination sink receives all but the last 3 byte(s) of the stream, the trailer returned is exactly those last bytes, across arbitrary write sizes; a stream shorter than the trailer is an error and forwards nothing
+//@ funcs: TrailerHold::new; TrailerHold::write; TrailerHold::flush; TrailerHold::into_trailer
+//@ symbolic: all stream bytes
+//@ bounds: trailer_len=3; three writes of 0, 0, 0 bytes (per-instance constants); unwind 12
+//@ oracle: inner == stream[..len-N]; trailer == stream[len-N..]; len < N => Err and nothing forwarded
+//@ stubs: alloc::fmt::format -> stub (only on the too-short error path, text unread)
+c10_trailer!(c10_trailer_t3_w000, 3, 0, 0, 0);
+
+//@ name: c10_trailer_t3_w001
+//@ prop: C10
+//@ tier: thorough
+//@ clause: a verified trailer is stripped exactly: the destination sink receives all but the last 3 byte(s) of the stream, the trailer returned is exactly those last bytes, across arbitrary write sizes; a stream shorter than the trailer is an error and forwards nothing
+//@ funcs: TrailerHold::new; TrailerHold::write; TrailerHold::flush; TrailerHold::into_trailer
+//@ symbolic: all stream bytes
+//@ bounds: trailer_len=3; three writes of 0, 0, 1 bytes (per-instance constants); unwind 12
+//@ oracle: inner == stream[..len-N]; trailer == stream[len-N..]; len < N => Err and nothing forwarded
+//@ stubs: alloc::fmt::format -> stub (only on the too-short error path, text unread)
+c10_trailer!(c10_trailer_t3_w001, 3, 0, 0, 1);
+
+//@ name: c10_trailer_t3_w003
+//@ prop: C10
+//@ tier: thorough
+//@ clause: a verified trailer is stripped exactly: the destination sink receives all but the last 3 byte(s) of the stream, the trailer returned is exactly those last bytes, across arbitrary write sizes; a stream shorter than the trailer is an error and forwards nothing
+//@ funcs: TrailerHold::new; TrailerHold::write; TrailerHold::flush; TrailerHold::into_trailer
+//@ symbolic: all stream bytes
+//@ bounds: trailer_len=3; three writes of 0, 0, 3 bytes (per-instance constants); unwind 12
+//@ oracle: inner == stream[..len-N]; trailer == stream[len-N..]; len < N => Err and nothing forwarded
+//@ stubs: alloc::fmt::format -> stub (only on the too-short error path, text unread)
+c10_trailer!(c10_trailer_t3_w003, 3, 0, 0, 3);
+
+//@ name: c10_trailer_t3_w010
+//@ prop: C10
+//@ tier: thorough
+//@ clause: a verified trailer is stripped exactly: the destination sink receives all but the last 3 byte(s) of the stream, the trailer returned is exactly those last bytes, across arbitrary write sizes; a stream shorter than the trailer is an error and forwards nothing
+//@ funcs: TrailerHold::new; TrailerHold::write; TrailerHold::flush; TrailerHold::into_trailer
+//@ symbolic: all stream bytes
+//@ bounds: trailer_len=3; three writes of 0, 1, 0 bytes (per-instance constants); unwind 12
+//@ oracle: inner == stream[..len-N]; trailer == stream[len-N..]; len < N => Err and nothing forwarded
+//@ stubs: alloc::fmt::format -> stub (only on the too-short error path, text unread)
+c10_trailer!(c10_trailer_t3_w010, 3, 0, 1, 0);
+
+//@ name: c10_trailer_t3_w011
+//@ prop: C10
+//@ tier: thorough
+//@ clause: a verified trailer is stripped exactly: the destination sink receives all but the last 3 byte(s) of the stream, the trailer returned is exactly those last bytes, across arbitrary write sizes; a stream shorter than the trailer is an error and forwards nothing
+//@ funcs: TrailerHold::new; TrailerHold::write; TrailerHold::flush; TrailerHold::into_trailer
+//@ symbolic: all stream bytes
+//@ bounds: trailer_len=3; three writes of 0, 1, 1 bytes (per-instance constants); unwind 12
+//@ oracle: inner == stream[..len-N]; trailer == stream[len-N..]; len < N => Err and nothing forwarded
+//@ stubs: alloc::fmt::format -> stub (only on the too-short error path, text unread)
+c10_trailer!(c10_trailer_t3_w011, 3, 0, 1, 1);
+
+//@ name: c10_trailer_t3_w013
+//@ prop: C10
+//@ tier: thorough
+//@ clause: a verified trailer is stripped exactly: the destination sink receives all but the last 3 byte(s) of the stream, the trailer returned is exactly those last bytes, across arbitrary write sizes; a stream shorter than the trailer is an error and forwards nothing
+//@ funcs: TrailerHold::new; TrailerHold::write; TrailerHold::flush; TrailerHold::into_trailer
+//@ symbolic: all stream bytes
+//@ bounds: trailer_len=3; three writes of 0, 1, 3 bytes (per-instance constants); unwind 12
+//@ oracle: inner == stream[..len-N]; trailer == stream[len-N..]; len < N => Err and nothing forwarded
+//@ stubs: alloc::fmt::format -> stub (only on the too-short error path, text unread)
+c10_trailer!(c10_trailer_t3_w013, 3, 0, 1, 3);
+
+//@ name: c10_trailer_t3_w030
+//@ prop: C10
+//@ tier: thorough
+//@ clause: a verified trailer is stripped exactly: the destination sink receives all but the last 3 byte(s) of the stream, the trailer returned is exactly those last bytes, across arbitrary write sizes; a stream shorter than the trailer is an error and forwards nothing
+//@ funcs: TrailerHold::new; TrailerHold::write; TrailerHold::flush; TrailerHold::into_trailer
+//@ symbolic: all stream bytes
+//@ bounds: trailer_len=3; three writes of 0, 3, 0 bytes (per-instance constants); unwind 12
+//@ oracle: inner == stream[..len-N]; trailer == stream[len-N..]; len < N => Err and nothing forwarded
+//@ stubs: alloc::fmt::format -> stub (only on the too-short error path, text unread)
+c10_trailer!(c10_trailer_t3_w030, 3, 0, 3, 0);
+
+//@ name: c10_trailer_t3_w031
+//@ prop: C10
+//@ tier: thorough
+//@ clause: a verified trailer is stripped exactly: the destination sink receives all but the last 3 byte(s) of the stream, the trailer returned is exactly those last bytes, across arbitrary write sizes; a stream shorter than the trailer is an error and forwards nothing
+//@ funcs: TrailerHold::new; TrailerHold::write; TrailerHold::flush; TrailerHold::into_trailer
+//@ symbolic: all stream bytes
+//@ bounds: trailer_len=3; three writes of 0, 3, 1 bytes (per-instance constants); unwind 12
+//@ oracle: inner == stream[..len-N]; trailer == stream[len-N..]; len < N => Err and nothing forwarded
+//@ stubs: alloc::fmt::format -> stub (only on the too-short error path, text unread)
+c10_trailer!(c10_trailer_t3_w031, 3, 0, 3, 1);
+
+//@ name: c10_trailer_t3_w033
+//@ prop: C10
+//@ tier: thorough
+//@ clause: a verified trailer is stripped exactly: the destination sink receives all but the last 3 byte(s) of the stream, the trailer returned is exactly those last bytes, across arbitrary write sizes; a stream shorter than the trailer is an error and forwards nothing
+//@ funcs: TrailerHold::new; TrailerHold::write; TrailerHold::flush; TrailerHold::into_trailer
+//@ symbolic: all stream bytes
+//@ bounds: trailer_len=3; three writes of 0, 3, 3 bytes (per-instance constants); unwind 12
+//@ oracle: inner == stream[..len-N]; trailer == stream[len-N..]; len < N => Err and nothing forwarded
+//@ stubs: alloc::fmt::format -> stub (only on the too-short error path, text unread)
+c10_trailer!(c10_trailer_t3_w033, 3, 0, 3, 3);
+
+//@ name: c10_trailer_t3_w100
+//@ prop: C10
+//@ tier: thorough
+//@ clause: a verified trailer is stripped exactly: the destination sink receives all but the last 3 byte(s) of the stream, the trailer returned is exactly those last bytes, across arbitrary write sizes; a stream shorter than the trailer is an error and forwards nothing
+//@ funcs: TrailerHold::new; TrailerHold::write; TrailerHold::flush; TrailerHold::into_trailer
+//@ symbolic: all stream bytes
+//@ bounds: trailer_len=3; three writes of 1, 0, 0 bytes (per-instance constants); unwind 12
+//@ oracle: inner == stream[..len-N]; trailer == stream[len-N..]; len < N => Err and nothing forwarded
+//@ stubs: alloc::fmt::format -> stub (only on the too-short error path, text unread)
+c10_trailer!(c10_trailer_t3_w100, 3, 1, 0, 0);
+
+//@ name: c10_trailer_t3_w101
+//@ prop: C10
+//@ tier: thorough
+//@ clause: a verified trailer is stripped exactly: the destination sink receives all but the last 3 byte(s) of the stream, the trailer returned is exactly those last bytes, across arbitrary write sizes; a stream shorter than the trailer is an error and forwards nothing
+//@ funcs: TrailerHold::new; TrailerHold::write; TrailerHold::flush; TrailerHold::into_trailer
+//@ symbolic: all stream bytes
+//@ bounds: trailer_len=3; three writes of 1, 0, 1 bytes (per-instance constants); unwind 12
+//@ oracle: inner == stream[..len-N]; trailer == stream[len-N..]; len < N => Err and nothing forwarded
+//@ stubs: alloc::fmt::format -> stub (only on the too-short error path, text unread)
+c10_trailer!(c10_trailer_t3_w101, 3, 1, 0, 1);
+
+//@ name: c10_trailer_t3_w103
+//@ prop: C10
+//@ tier: thorough
+//@ clause: a verified trailer is stripped exactly: the destination sink receives all but the last 3 byte(s) of the stream, the trailer returned is exactly those last bytes, across arbitrary write sizes; a stream shorter than the trailer is an error and forwards nothing
+//@ funcs: TrailerHold::new; TrailerHold::write; TrailerHold::flush; TrailerHold::into_trailer
+//@ symbolic: all stream bytes
+//@ bounds: trailer_len=3; three writes of 1, 0, 3 bytes (per-instance constants); unwind 12
+//@ oracle: inner == stream[..len-N]; trailer == stream[len-N..]; len < N => Err and nothing forwarded
+//@ stubs: alloc::fmt::format -> stub (only on the too-short error path, text unread)
+c10_trailer!(c10_trailer_t3_w103, 3, 1, 0, 3);
+
+//@ name: c10_trailer_t3_w111
+//@ prop: C10
+//@ tier: thorough
+//@ clause: a verified trailer is stripped exactly: the destination sink receives all but the last 3 byte(s) of the stream, the trailer returned is exactly those last bytes, across arbitrary write sizes; a stream shorter than the trailer is an error and forwards nothing
+//@ funcs: TrailerHold::new; TrailerHold::write; TrailerHold::flush; TrailerHold::into_trailer
+//@ symbolic: all stream bytes
+//@ bounds: trailer_len=3; three writes of 1, 1, 1 bytes (per-instance constants); unwind 12
+//@ oracle: inner == stream[..len-N]; trailer == stream[len-N..]; len < N => Err and nothing forwarded
+//@ stubs: alloc::fmt::format -> stub (only on the too-short error path, text unread)
+c10_trailer!(c10_trailer_t3_w111, 3, 1, 1, 1);
+
+//@ name: c10_trailer_t3_w113
+//@ prop: C10
+//@ tier: thorough
+//@ clause: a verified trailer is stripped exactly: the destination sink receives all but the last 3 byte(s) of the stream, the trailer returned is exactly those last bytes, across arbitrary write sizes; a stream shorter than the trailer is an error and forwards nothing
+//@ funcs: TrailerHold::new; TrailerHold::write; TrailerHold::flush; TrailerHold::into_trailer
+//@ symbolic: all stream bytes
+//@ bounds: trailer_len=3; three writes of 1, 1, 3 bytes (per-instance constants); unwind 12
+//@ oracle: inner == stream[..len-N]; trailer == stream[len-N..]; len < N => Err and nothing forwarded
+//@ stubs: alloc::fmt::format -> stub (only on the too-short error path, text unread)
+c10_trailer!(c10_trailer_t3_w113, 3, 1, 1, 3);
+
+//@ name: c10_trailer_t3_w130
+//@ prop: C10
+//@ tier: thorough
+//@ clause: a verified trailer is stripped exactly: the destination sink receives all but the last 3 byte(s) of the stream, the trailer returned is exactly those last bytes, across arbitrary write sizes; a stream shorter than the trailer is an error and forwards nothing
+//@ funcs: TrailerHold::new; TrailerHold::write; TrailerHold::flush; TrailerHold::into_trailer
+//@ symbolic: all stream bytes
+//@ bounds: trailer_len=3; three writes of 1, 3, 0 bytes (per-instance constants); unwind 12
+//@ oracle: inner == stream[..len-N]; trailer == stream[len-N..]; len < N => Err and nothing forwarded
+//@ stubs: alloc::fmt::format -> stub (only on the too-short error path, text unread)
+c10_trailer!(c10_trailer_t3_w130, 3, 1, 3, 0);
+
+//@ name: c10_trailer_t3_w131
+//@ prop: C10
+//@ tier: thorough
+//@ clause: a verified trailer is stripped exactly: the destination sink receives all but the last 3 byte(s) of the stream, the trailer returned is exactly those last bytes, across arbitrary write sizes; a stream shorter than the trailer is an error and forwards nothing
+//@ funcs: TrailerHold::new; TrailerHold::write; TrailerHold::flush; TrailerHold::into_trailer
+//@ symbolic: all stream bytes
+//@ bounds: trailer_len=3; three writes of 1, 3, 1 bytes (per-instance constants); unwind 12
+//@ oracle: inner == stream[..len-N]; trailer == stream[len-N..]; len < N => Err and nothing forwarded
+//@ stubs: alloc::fmt::format -> stub (only on the too-short error path, text unread)
+c10_trailer!(c10_trailer_t3_w131, 3, 1, 3, 1);
+
+//@ name: c10_trailer_t3_w133
+//@ prop: C10
+//@ tier: thorough
+//@ clause: a verified trailer is stripped exactly: the destination sink receives all but the last 3 byte(s) of the stream, the trailer returned is exactly those last bytes, across arbitrary write sizes; a stream shorter than the trailer is an error and forwards nothing
+//@ funcs: TrailerHold::new; TrailerHold::write; TrailerHold::flush; TrailerHold::into_trailer
+//@ symbolic: all stream bytes
+//@ bounds: trailer_len=3; three writes of 1, 3, 3 bytes (per-instance constants); unwind 12
+//@ oracle: inner == stream[..len-N]; trailer == stream[len-N..]; len < N => Err and nothing forwarded
+//@ stubs: alloc::fmt::format -> stub (only on the too-short error path, text unread)
+c10_trailer!(c10_trailer_t3_w133, 3, 1, 3, 3);
+
+//@ name: c10_trailer_t3_w300
+//@ prop: C10
+//@ tier: thorough
+//@ clause: a verified trailer is stripped exactly: the destination sink receives all but the last 3 byte(s) of the stream, the trailer returned is exactly those last bytes, across arbitrary write sizes; a stream shorter than the trailer is an error and forwards nothing
+//@ funcs: TrailerHold::new; TrailerHold::write; TrailerHold::flush; TrailerHold::into_trailer
+//@ symbolic: all stream bytes
+//@ bounds: trailer_len=3; three writes of 3, 0, 0 bytes (per-instance constants); unwind 12
+//@ oracle: inner == stream[..len-N]; trailer == stream[len-N..]; len < N => Err and nothing forwarded
+//@ stubs: alloc::fmt::format -> stub (only on the too-short error path, text unread)
+c10_trailer!(c10_trailer_t3_w300, 3, 3, 0, 0);
+
+//@ name: c10_trailer_t3_w301
+//@ prop: C10
+//@ tier: thorough
+//@ clause: a verified trailer is stripped exactly: the destination sink receives all but the last 3 byte(s) of the stream, the trailer returned is exactly those last bytes, across arbitrary write sizes; a stream shorter than the trailer is an error and forwards nothing
+//@ funcs: TrailerHold::new; TrailerHold::write; TrailerHold::flush; TrailerHold::into_trailer
+//@ symbolic: all stream bytes
+//@ bounds: trailer_len=3; three writes of 3, 0, 1 bytes (per-instance constants); unwind 12
+//@ oracle: inner == stream[..len-N]; trailer == stream[len-N..]; len < N => Err and nothing forwarded
+//@ stubs: alloc::fmt::format -> stub (only on the too-short error path, text unread)
+c10_trailer!(c10_trailer_t3_w301, 3, 3, 0, 1);
+
+//@ name: c10_trailer_t3_w303
+//@ prop: C10
+//@ tier: thorough
+//@ clause: a verified trailer is stripped exactly: the destination sink receives all but the last 3 byte(s) of the stream, the trailer returned is exactly those last bytes, across arbitrary write sizes; a stream shorter than the trailer is an error and forwards nothing
+//@ funcs: TrailerHold::new; TrailerHold::write; TrailerHold::flush; TrailerHold::into_trailer
+//@ symbolic: all stream bytes
+//@ bounds: trailer_len=3; three writes of 3, 0, 3 bytes (per-instance constants); unwind 12
+//@ oracle: inner == stream[..len-N]; trailer == stream[len-N..]; len < N => Err and nothing forwarded
+//@ stubs: alloc::fmt::format -> stub (only on the too-short error path, text unread)
+c10_trailer!(c10_trailer_t3_w303, 3, 3, 0, 3);
+
+//@ name: c10_trailer_t3_w310
+//@ prop: C10
+//@ tier: thorough
+//@ clause: a verified trailer is stripped exactly: the destination sink receives all but the last 3 byte(s) of the stream, the trailer returned is exactly those last bytes, across arbitrary write sizes; a stream shorter than the trailer is an error and forwards nothing
+//@ funcs: TrailerHold::new; TrailerHold::write; TrailerHold::flush; TrailerHold::into_trailer
+//@ symbolic: all stream bytes
+//@ bounds: trailer_len=3; three writes of 3, 1, 0 bytes (per-instance constants); unwind 12
+//@ oracle: inner == stream[..len-N]; trailer == stream[len-N..]; len < N => Err and nothing forwarded
+//@ stubs: alloc::fmt::format -> stub (only on the too-short error path, text unread)
+c10_trailer!(c10_trailer_t3_w310, 3, 3, 1, 0);
+
+//@ name: c10_trailer_t3_w311
+//@ prop: C10
+//@ tier: thorough
+//@ clause: a verified trailer is stripped exactly: the destination sink receives all but the last 3 byte(s) of the stream, the trailer returned is exactly those last bytes, across arbitrary write sizes; a stream shorter than the trailer is an error and forwards nothing
+//@ funcs: TrailerHold::new; TrailerHold::write; TrailerHold::flush; TrailerHold::into_trailer
+//@ symbolic: all stream bytes
+//@ bounds: trailer_len=3; three writes of 3, 1, 1 bytes (per-instance constants); unwind 12
+//@ oracle: inner == stream[..len-N]; trailer == stream[len-N..]; len < N => Err and nothing forwarded
+//@ stubs: alloc::fmt::format -> stub (only on the too-short error path, text unread)
+c10_trailer!(c10_trailer_t3_w311, 3, 3, 1, 1);
+
+//@ name: c10_trailer_t3_w313
+//@ prop: C10
+//@ tier: thorough
+//@ clause: a verified trailer is stripped exactly: the destination sink receives all but the last 3 byte(s) of the stream, the trailer returned is exactly those last bytes, across arbitrary write sizes; a stream shorter than the trailer is an error and forwards nothing
+//@ funcs: TrailerHold::new; TrailerHold::write; TrailerHold::flush; TrailerHold::into_trailer
+//@ symbolic: all stream bytes
+//@ bounds: trailer_len=3; three writes of 3, 1, 3 bytes (per-instance constants); unwind 12
+//@ oracle: inner == stream[..len-N]; trailer == stream[len-N..]; len < N => Err and nothing forwarded
+//@ stubs: alloc::fmt::format -> stub (only on the too-short error path, text unread)
+c10_trailer!(c10_trailer_t3_w313, 3, 3, 1, 3);
+
+//@ name: c10_trailer_t3_w330
+//@ prop: C10
+//@ tier: thorough
+//@ clause: a verified trailer is stripped exactly: the destination sink receives all but the last 3 byte(s) of the stream, the trailer returned is exactly those last bytes, across arbitrary write sizes; a stream shorter than the trailer is an error and forwards nothing
+//@ funcs: TrailerHold::new; TrailerHold::write; TrailerHold::flush; TrailerHold::into_trailer
+//@ symbolic: all stream bytes
+//@ bounds: trailer_len=3; three writes of 3, 3, 0 bytes (per-instance constants); unwind 12
+//@ oracle: inner == stream[..len-N]; trailer == stream[len-N..]; len < N => Err and nothing forwarded
+//@ stubs: alloc::fmt::format -> stub (only on the too-short error path, text unread)
+c10_trailer!(c10_trailer_t3_w330, 3, 3, 3, 0);
+
+//@ name: c10_trailer_t3_w331
+//@ prop: C10
+//@ tier: thorough
+//@ clause: a verified trailer is stripped exactly: the destination sink receives all but the last 3 byte(s) of the stream, the trailer returned is exactly those last bytes, across arbitrary write sizes; a stream shorter than the trailer is an error and forwards nothing
+//@ funcs: TrailerHold::new; TrailerHold::write; TrailerHold::flush; TrailerHold::into_trailer
+//@ symbolic: all stream bytes
+//@ bounds: trailer_len=3; three writes of 3, 3, 1 bytes (per-instance constants); unwind 12
+//@ oracle: inner == stream[..len-N]; trailer == stream[len-N..]; len < N => Err and nothing forwarded
+//@ stubs: alloc::fmt::format -> stub (only on the too-short error path, text unread)
+c10_trailer!(c10_trailer_t3_w331, 3, 3, 3, 1);
+
+//@ name: c10_trailer_t3_w333
+//@ prop: C10
+//@ tier: thorough
+//@ clause: a verified trailer is stripped exactly: the destination sink receives all but the last 3 byte(s) of the stream, the trailer returned is exactly those last bytes, across arbitrary write sizes; a stream shorter than the trailer is an error and forwards nothing
+//@ funcs: TrailerHold::new; TrailerHold::write; TrailerHold::flush; TrailerHold::into_trailer
+//@ symbolic: all stream bytes
+//@ bounds: trailer_len=3; three writes of 3, 3, 3 bytes (per-instance constants); unwind 12
+//@ oracle: inner == stream[..len-N]; trailer == stream[len-N..]; len < N => Err and nothing forwarded
+//@ stubs: alloc::fmt::format -> stub (only on the too-short error path, text unread)
+c10_trailer!(c10_trailer_t3_w333, 3, 3, 3, 3);
+
+// ---- Session::pull protocol over arbitrary producer message sequences ---------
+/// msgs[i]: 0 = Chunk(1 byte), 1 = End, 2 = Fail. The producer contract (produce())
+/// is: zero or more chunks, then exactly one End or Fail. A bare channel close
+/// (no terminal marker) models a vanished producer and must surface as an error.
+fn session_protocol<const K: usize>() {
+    let kinds: [u8; K] = kani::any();
+    let bytes: [u8; K] = kani::any();
+    let (tx, rx) = sync_channel::<Msg>(1);
+    // enqueue chunks up to and including the first terminal marker
+    let mut n_chunks = 0usize;
+    let mut terminal = 0u8; // 0 none (bare close), 1 End, 2 Fail
+    let mut i = 0;
+    while i < K && terminal == 0 {
+        kani::assume(kinds[i] <= 2);
+        match kinds[i] {
+            0 => {
+                tx.send(Msg::Chunk(vec![bytes[i]])).unwrap();
+                n_chunks += 1;
+            }
+            1 => {
+                tx.send(Msg::End).unwrap();
+                terminal = 1;
+            }
+            _ => {
+                tx.send(Msg::Fail(String::new())).unwrap();
+                terminal = 2;
+            }
+        }
+        i += 1;
+    }
+    let mut s = Session { rx, lookahead: None, done: false };
+    let mut pulled = 0usize;
+    let mut lasts = 0usize;
+    let mut errored = false;
+    let mut p = 0;
+    while p < K + 1 && lasts == 0 && !errored {
+        match s.pull() {
+            Ok((c, last)) => {
+                if c.len() == 1 {
+                    assert!(c[0] == bytes[pulled], "chunk lost, duplicated or reordered");
+                    pulled += 1;
+                } else {
+                    assert!(c.is_empty() && last && n_chunks == 0, "an empty chunk that is not the sole final chunk");
+                }
+                if last {
+                    lasts += 1;
+                }
+                std::mem::forget(c);
+            }
+            Err(e) => {
+                errored = true;
+                std::mem::forget(e);
+            }
+        }
+        p += 1;
+    }
+    if terminal == 1 {
+        assert!(lasts == 1 && !errored, "a clean production did not end with exactly one final chunk");
+        assert!(pulled == n_chunks, "chunks lost before the end marker");
+    } else {
+        // producer failure (or vanished producer) at any point: an error, never an end marker
+        assert!(errored && lasts == 0, "a failed production surfaced as an end marker");
+    }
+    kani::cover!(terminal == 2 && n_chunks == 0);
+    kani::cover!(terminal == 2 && n_chunks == K - 1);
+    kani::cover!(terminal == 1 && n_chunks == K - 1);
+    kani::cover!(terminal == 0);
+    std::mem::forget(s);
+    std::mem::forget(tx);
+}
+
+//@ prop: C09
+//@ tier: quick
+//@ clause: a producer failure at any point (before the first chunk, after k chunks) or a vanished producer surfaces as an error instead of an end marker; a clean end yields exactly one final chunk after all chunks, in order
+//@ funcs: Session::pull; Session::recv
+//@ symbolic: the producer's message sequence (each of 3 slots: chunk / End / Fail, cut at the first terminal marker), chunk bytes
+//@ bounds: <= 3 messages (0..2 chunks before the terminal marker, or no marker at all); unwind 8
+//@ oracle: statement clauses over the enqueued sequence
+//@ stubs: mpsc::SyncSender::send / Receiver::recv -> in-memory FIFO
+#[kani::proof]
+#[kani::stub(std::sync::mpsc::SyncSender::send, send_stub)]
+#[kani::stub(std::sync::mpsc::Receiver::recv, recv_stub)]
+#[kani::unwind(8)]
+fn c09_session_pull_protocol_3() {
+    session_protocol::<3>();
+}
